@@ -4,41 +4,56 @@
 //! builds the dump bytes from it. The property's own oracle is evaluated on the implementation's
 //! `ProcessState` alone.
 //!
-//! case line (fields in this order, numbers decimal):
+//! case line (the first eleven fields in this order, numbers decimal; the others optional):
 //!   `index ts=<u32> os=<platform id> cpu=<arch> th=<T> nm=<N> bp=<B> ex=<E> mi=<M> st=<S> mo=<L> um=<L>`
-//!   T = `-` (no thread list stream) | `.` (empty list) | `id:ctx,..`  ctx = `r<ip>` | `u<mode 0..4>`
-//!   N = `-` | `.` | `id:name,..`   name `!` = unreadable string
+//!         `[rg=<R>] [en=<le|be>] [ml=<ML>] [si=<SI>] [lsb=<S'>] [mac=<MC>] [ba=<BA>] [hd=<n>] [ps=<mask>]`
+//!   T = `-` (no thread list stream) | `.` (empty list) | `id:ctx[:stk],..`
+//!       ctx = `r<ip>` | `r<ip>/<sp>/<fp>` | `u<mode 0..4>`
+//!       stk = `<start>/n` (stack descriptor with rva 0) | `<start>/o` (location outside the file) |
+//!             `<start>/m<k>` (the descriptor cites the bytes of pool region k)
+//!   N = `-` | `.` | `id:name,..`   name: `!` = unreadable string | ASCII token | `x<hex of UTF-16 code units>`
 //!   B = `-` | `validity:dump_thread_id:requesting_thread_id`
 //!   E = `-` | `x` (stream too short) | `tid:code:flags:addr:nparams:p0:p1:p2:ctx`
 //!   M = `-` | `x` (stream too short) | `flags1:pid:create_time:version(1..5)`
 //!   S = `-` | `.` (empty stream) | `Key~value,..`
 //!   L = `.` | `base:size:name,..`
+//!   R = pool of memory regions `base/size[/off.hexbytes]*,..` (zero-filled, then patched)
+//!   ML = `;`-separated sections: `L:<i>.<i>..` memory list of pool regions (`!<base>` = a descriptor
+//!        with rva 0) | `Q:<i>.<i>..` memory-64 list | `X` (memory-64 stream too short)
+//!   SI = `level:revision:ncpu:major:minor:build:csd:d0:d1:d2`   (csd: `-` | name)
+//!   S' = `.` | `KEY~x<hex utf8>,..`      MC = `.` | `version/thread/dialog/abort/<s0>/../<s4>,..`
+//!   BA = name (`!`: the boot-args string cannot be read)    hd = number of handle descriptors (>= 1)
+//!   ps = bit mask of streams present but not consulted: 1 thread-info list, 2 Crashpad info,
+//!        4 assertion info, 8 memory-info list
 //!
 //! unreadable-context modes: 0 location (0,0) · 1 rva outside the file · 2 truncated by one byte ·
 //! 3 context_flags without the CPU bits · 4 size 0 at a valid rva
 
 use crate::common::*;
+use crate::engines::walk;
 use minidump::system_info::{Cpu, Os, PointerWidth};
 use minidump::*;
 use minidump_common::format as md;
 use minidump_synth as synth;
 use scroll::ctx::SizeWith;
 use scroll::{Pread, Pwrite};
-use std::collections::BTreeMap;
+use std::collections::{BTreeMap, BTreeSet};
 use std::fmt::Write as _;
 use synth::{DumpSection, SectionExtra};
-use test_assembler::{Endian, Section};
+use test_assembler::{Endian, Label, LabelMaker, Section};
 
 pub struct Index;
-
-const LE: Endian = Endian::Little;
 
 // ------------------------------------------------------------------------------------ case
 
 #[derive(Clone, Copy, Debug, PartialEq)]
 enum Ctx {
-    R(u64),
+    R { ip: u64, sp: u64, fp: u64 },
     U(u8),
+}
+
+fn rctx(ip: u64) -> Ctx {
+    Ctx::R { ip, sp: 0, fp: 0 }
 }
 
 #[derive(Clone, Debug, PartialEq)]
@@ -68,11 +83,156 @@ enum MiscSpec {
     Some { flags: u32, pid: u32, ctime: u32, ver: u8 },
 }
 
+/// a name as written into the dump: UTF-16 code units, or an unreadable string
+#[derive(Clone, Debug, PartialEq)]
+enum Name {
+    Bad,
+    Units(Vec<u16>),
+}
+
+impl Name {
+    fn ascii(s: &str) -> Name {
+        Name::Units(s.encode_utf16().collect())
+    }
+    /// what `read_string_utf16` yields
+    fn decoded(&self) -> Option<String> {
+        match self {
+            Name::Bad => None,
+            Name::Units(u) => String::from_utf16(u).ok(),
+        }
+    }
+    fn field(&self) -> String {
+        match self {
+            Name::Bad => "!".into(),
+            Name::Units(u) => {
+                let tok = !u.is_empty()
+                    && u[0] != b'x' as u16
+                    && u.iter().all(|c| *c < 128 && ((*c as u8).is_ascii_alphanumeric() || *c == b'_' as u16 || *c == b'.' as u16));
+                if tok {
+                    String::from_utf16(u).unwrap()
+                } else {
+                    let mut b = vec![];
+                    for c in u {
+                        b.push((c >> 8) as u8);
+                        b.push((c & 0xff) as u8);
+                    }
+                    format!("x{}", hex(&b))
+                }
+            }
+        }
+    }
+    fn parse(s: &str) -> Option<Name> {
+        if s == "!" {
+            Some(Name::Bad)
+        } else if let Some(h) = s.strip_prefix('x') {
+            let b = unhex(h)?;
+            if b.len() % 2 != 0 {
+                return None;
+            }
+            Some(Name::Units(b.chunks(2).map(|p| ((p[0] as u16) << 8) | p[1] as u16).collect()))
+        } else if name_ok(s) {
+            Some(Name::ascii(s))
+        } else {
+            None
+        }
+    }
+}
+
+/// names in answers: ASCII tokens not starting with `x` as they are, else `x<hex utf8>`
+fn show_name(s: &str) -> String {
+    if name_ok(s) && !s.starts_with('x') {
+        s.to_string()
+    } else {
+        format!("x{}", hex(s.as_bytes()))
+    }
+}
+
+fn show_opt_name(s: Option<&str>) -> String {
+    match s {
+        Some(s) => show_name(s),
+        None => "-".into(),
+    }
+}
+
+fn text_field(s: &str) -> String {
+    format!("x{}", hex(s.as_bytes()))
+}
+
+fn parse_text(s: &str) -> Option<String> {
+    String::from_utf8(unhex(s.strip_prefix('x')?)?).ok()
+}
+
 #[derive(Clone, Debug, PartialEq)]
 struct Mod {
     base: u64,
     size: u32,
-    name: String,
+    name: Name,
+}
+
+#[derive(Clone, Copy, Debug, PartialEq)]
+enum Own {
+    Null,
+    Outside,
+    Pool(usize),
+}
+
+#[derive(Clone, Debug, PartialEq)]
+struct Thread {
+    id: u32,
+    ctx: Ctx,
+    /// (start_of_memory_range, what the descriptor cites)
+    stack: Option<(u64, Own)>,
+}
+
+#[derive(Clone, Debug, PartialEq)]
+struct Region {
+    base: u64,
+    size: u64,
+    patches: Vec<(u64, Vec<u8>)>,
+}
+
+impl Region {
+    fn bytes(&self) -> Vec<u8> {
+        let mut b = vec![0u8; self.size as usize];
+        for (off, p) in &self.patches {
+            b[*off as usize..*off as usize + p.len()].copy_from_slice(p);
+        }
+        b
+    }
+}
+
+#[derive(Clone, Debug, PartialEq)]
+enum LItem {
+    Pool(usize),
+    Null(u64),
+}
+
+#[derive(Clone, Debug, PartialEq)]
+enum MlSection {
+    L(Vec<LItem>),
+    Q(Vec<usize>),
+    X,
+}
+
+#[derive(Clone, Debug, PartialEq)]
+struct Sys {
+    level: u16,
+    revision: u16,
+    ncpu: u8,
+    major: u32,
+    minor: u32,
+    build: u32,
+    csd: Option<Name>,
+    d: [u32; 3],
+}
+
+#[derive(Clone, Debug, PartialEq)]
+struct MacRec {
+    version: u64,
+    thread: u64,
+    dialog: u64,
+    abort: u64,
+    strs: [String; 5],
 }
 
 #[derive(Clone, Debug, PartialEq)]
@@ -80,19 +240,29 @@ struct Case {
     ts: u32,
     os: u32,
     cpu: u16,
-    th: Option<Vec<(u32, Ctx)>>,
-    nm: Option<Vec<(u32, Option<String>)>>,
+    th: Option<Vec<Thread>>,
+    nm: Option<Vec<(u32, Name)>>,
     bp: Option<(u32, u32, u32)>,
     ex: ExcSpec,
     mi: MiscSpec,
     st: Option<Vec<(String, String)>>,
     mo: Vec<Mod>,
     um: Vec<Mod>,
+    rg: Vec<Region>,
+    be: bool,
+    ml: Vec<MlSection>,
+    si: Option<Sys>,
+    lsb: Option<Vec<(String, String)>>,
+    mac: Option<Vec<MacRec>>,
+    ba: Option<Name>,
+    hd: Option<u32>,
+    ps: u32,
 }
 
 fn fmt_ctx(c: &Ctx) -> String {
     match c {
-        Ctx::R(ip) => format!("r{ip}"),
+        Ctx::R { ip, sp: 0, fp: 0 } => format!("r{ip}"),
+        Ctx::R { ip, sp, fp } => format!("r{ip}/{sp}/{fp}"),
         Ctx::U(m) => format!("u{m}"),
     }
 }
@@ -109,11 +279,19 @@ impl Case {
     fn line(&self) -> String {
         let th = match &self.th {
             None => "-".to_string(),
-            Some(v) => fmt_list(v, |(id, c)| format!("{id}:{}", fmt_ctx(c))),
+            Some(v) => fmt_list(v, |t| {
+                let stk = match &t.stack {
+                    None => String::new(),
+                    Some((start, Own::Null)) => format!(":{start}/n"),
+                    Some((start, Own::Outside)) => format!(":{start}/o"),
+                    Some((start, Own::Pool(k))) => format!(":{start}/m{k}"),
+                };
+                format!("{}:{}{}", t.id, fmt_ctx(&t.ctx), stk)
+            }),
         };
         let nm = match &self.nm {
             None => "-".to_string(),
-            Some(v) => fmt_list(v, |(id, n)| format!("{id}:{}", n.as_deref().unwrap_or("!"))),
+            Some(v) => fmt_list(v, |(id, n)| format!("{id}:{}", n.field())),
         };
         let bp = match &self.bp {
             None => "-".to_string(),
@@ -136,11 +314,95 @@ impl Case {
             None => "-".to_string(),
             Some(v) => fmt_list(v, |(k, val)| format!("{k}~{val}")),
         };
-        let ml = |v: &Vec<Mod>| fmt_list(v, |m| format!("{}:{}:{}", m.base, m.size, m.name));
-        format!(
+        let ml = |v: &Vec<Mod>| fmt_list(v, |m| format!("{}:{}:{}", m.base, m.size, m.name.field()));
+        let mut s = format!(
             "index ts={} os={} cpu={} th={} nm={} bp={} ex={} mi={} st={} mo={} um={}",
             self.ts, self.os, self.cpu, th, nm, bp, ex, mi, st, ml(&self.mo), ml(&self.um)
-        )
+        );
+        if !self.rg.is_empty() {
+            let _ = write!(
+                s,
+                " rg={}",
+                self.rg
+                    .iter()
+                    .map(|r| {
+                        let mut t = format!("{}/{}", r.base, r.size);
+                        for (off, p) in &r.patches {
+                            let _ = write!(t, "/{off}.{}", hex(p));
+                        }
+                        t
+                    })
+                    .collect::<Vec<_>>()
+                    .join(",")
+            );
+        }
+        if self.be {
+            s.push_str(" en=be");
+        }
+        if !self.ml.is_empty() {
+            let secs: Vec<String> = self
+                .ml
+                .iter()
+                .map(|m| match m {
+                    MlSection::X => "X".to_string(),
+                    MlSection::Q(v) => format!("Q:{}", v.iter().map(|i| i.to_string()).collect::<Vec<_>>().join(".")),
+                    MlSection::L(v) => format!(
+                        "L:{}",
+                        v.iter()
+                            .map(|i| match i {
+                                LItem::Pool(k) => k.to_string(),
+                                LItem::Null(b) => format!("!{b}"),
+                            })
+                            .collect::<Vec<_>>()
+                            .join(".")
+                    ),
+                })
+                .collect();
+            let _ = write!(s, " ml={}", secs.join(";"));
+        }
+        if let Some(si) = &self.si {
+            let _ = write!(
+                s,
+                " si={}:{}:{}:{}:{}:{}:{}:{}:{}:{}",
+                si.level,
+                si.revision,
+                si.ncpu,
+                si.major,
+                si.minor,
+                si.build,
+                si.csd.as_ref().map(|n| n.field()).unwrap_or_else(|| "-".into()),
+                si.d[0],
+                si.d[1],
+                si.d[2]
+            );
+        }
+        if let Some(l) = &self.lsb {
+            let _ = write!(s, " lsb={}", fmt_list(l, |(k, v)| format!("{k}~{}", text_field(v))));
+        }
+        if let Some(m) = &self.mac {
+            let _ = write!(
+                s,
+                " mac={}",
+                fmt_list(m, |r| format!(
+                    "{}/{}/{}/{}/{}",
+                    r.version,
+                    r.thread,
+                    r.dialog,
+                    r.abort,
+                    r.strs.iter().map(|x| text_field(x)).collect::<Vec<_>>().join("/")
+                ))
+            );
+        }
+        if let Some(b) = &self.ba {
+            let _ = write!(s, " ba={}", b.field());
+        }
+        if let Some(h) = self.hd {
+            let _ = write!(s, " hd={h}");
+        }
+        if self.ps != 0 {
+            let _ = write!(s, " ps={}", self.ps);
+        }
+        s
     }
 }
 
@@ -148,9 +410,23 @@ fn kv<'a>(tok: &'a str, key: &str) -> Option<&'a str> {
     tok.strip_prefix(key)?.strip_prefix('=')
 }
 
-fn parse_ctx(s: &str) -> Option<Ctx> {
+fn ctx32(cpu: u16) -> bool {
+    matches!(cpu, 0 | 10 | 3 | 5)
+}
+
+fn parse_ctx(cpu: u16, s: &str) -> Option<Ctx> {
     if let Some(r) = s.strip_prefix('r') {
-        Some(Ctx::R(r.parse().ok()?))
+        let lim = if ctx32(cpu) { u32::MAX as u64 } else { u64::MAX };
+        let p: Vec<&str> = r.split('/').collect();
+        let v: Vec<u64> = p.iter().map(|x| x.parse().ok()).collect::<Option<_>>()?;
+        if v.iter().any(|x| *x > lim) {
+            return None;
+        }
+        match v.as_slice() {
+            [ip] => Some(rctx(*ip)),
+            [ip, sp, fp] => Some(Ctx::R { ip: *ip, sp: *sp, fp: *fp }),
+            _ => None,
+        }
     } else if let Some(u) = s.strip_prefix('u') {
         Some(Ctx::U(u.parse().ok()?))
     } else {
@@ -172,39 +448,82 @@ fn name_ok(s: &str) -> bool {
 
 fn parse_mod(s: &str) -> Option<Mod> {
     let p: Vec<&str> = s.split(':').collect();
-    if p.len() != 3 || !name_ok(p[2]) {
+    if p.len() != 3 {
         return None;
     }
-    Some(Mod { base: p[0].parse().ok()?, size: p[1].parse().ok()?, name: p[2].to_string() })
+    Some(Mod { base: p[0].parse().ok()?, size: p[1].parse().ok()?, name: Name::parse(p[2])? })
+}
+
+fn parse_region(s: &str) -> Option<Region> {
+    let p: Vec<&str> = s.split('/').collect();
+    if p.len() < 2 {
+        return None;
+    }
+    let base = p[0].parse().ok()?;
+    let size: u64 = p[1].parse().ok()?;
+    if size > 1_048_576 {
+        return None;
+    }
+    let mut patches = vec![];
+    for q in &p[2..] {
+        let (o, h) = q.split_once('.')?;
+        let off: u64 = o.parse().ok()?;
+        let b = unhex(h)?;
+        if off + b.len() as u64 > size {
+            return None;
+        }
+        patches.push((off, b));
+    }
+    Some(Region { base, size, patches })
 }
 
 fn parse_case(line: &str) -> Option<Case> {
     let f: Vec<&str> = line.split(' ').filter(|s| !s.is_empty()).collect();
-    if f.len() != 12 || f[0] != "index" {
+    if f.len() < 12 || f[0] != "index" {
         return None;
     }
     let ts = kv(f[1], "ts")?.parse().ok()?;
     let os = kv(f[2], "os")?.parse().ok()?;
-    let cpu = kv(f[3], "cpu")?.parse().ok()?;
+    let cpu: u16 = kv(f[3], "cpu")?.parse().ok()?;
+    let mut rest = &f[12..];
+    let mut rg = vec![];
+    if let Some(r) = rest.first().and_then(|t| kv(t, "rg")) {
+        rg = parse_list(r, parse_region)?;
+        rest = &rest[1..];
+    }
     let th = match kv(f[4], "th")? {
         "-" => None,
         s => Some(parse_list(s, |t| {
-            let (a, c) = t.split_once(':')?;
-            Some((a.parse().ok()?, parse_ctx(c)?))
+            let p: Vec<&str> = t.split(':').collect();
+            if p.len() != 2 && p.len() != 3 {
+                return None;
+            }
+            let stack = if p.len() == 3 {
+                let (st, o) = p[2].split_once('/')?;
+                let start: u64 = st.parse().ok()?;
+                let own = match o {
+                    "n" => Own::Null,
+                    "o" => Own::Outside,
+                    m => {
+                        let k: usize = m.strip_prefix('m')?.parse().ok()?;
+                        if k >= rg.len() {
+                            return None;
+                        }
+                        Own::Pool(k)
+                    }
+                };
+                Some((start, own))
+            } else {
+                None
+            };
+            Some(Thread { id: p[0].parse().ok()?, ctx: parse_ctx(cpu, p[1])?, stack })
         })?),
     };
     let nm = match kv(f[5], "nm")? {
         "-" => None,
         s => Some(parse_list(s, |t| {
             let (a, n) = t.split_once(':')?;
-            let id = a.parse().ok()?;
-            if n == "!" {
-                Some((id, None))
-            } else if name_ok(n) {
-                Some((id, Some(n.to_string())))
-            } else {
-                None
-            }
+            Some((a.parse().ok()?, Name::parse(n)?))
         })?),
     };
     let bp = match kv(f[6], "bp")? {
@@ -234,7 +553,7 @@ fn parse_case(line: &str) -> Option<Case> {
                 p0: p[5].parse().ok()?,
                 p1: p[6].parse().ok()?,
                 p2: p[7].parse().ok()?,
-                ctx: parse_ctx(p[8])?,
+                ctx: parse_ctx(cpu, p[8])?,
             })
         }
     };
@@ -266,24 +585,136 @@ fn parse_case(line: &str) -> Option<Case> {
     };
     let mo = parse_list(kv(f[10], "mo")?, parse_mod)?;
     let um = parse_list(kv(f[11], "um")?, parse_mod)?;
-    Some(Case { ts, os, cpu, th, nm, bp, ex, mi, st, mo, um })
+    let mut c = Case { ts, os, cpu, th, nm, bp, ex, mi, st, mo, um, rg, be: false, ml: vec![], si: None, lsb: None, mac: None, ba: None, hd: None, ps: 0 };
+    let mut seen: BTreeSet<&str> = BTreeSet::new();
+    for t in rest {
+        let (k, v) = t.split_once('=')?;
+        if !seen.insert(k) {
+            return None;
+        }
+        match k {
+            "en" => c.be = match v { "be" => true, "le" => false, _ => return None },
+            "ml" => {
+                for sec in v.split(';') {
+                    let item = if sec == "X" {
+                        MlSection::X
+                    } else if let Some(b) = sec.strip_prefix("L:") {
+                        let mut items = vec![];
+                        for it in b.split('.').filter(|x| !x.is_empty()) {
+                            items.push(if let Some(a) = it.strip_prefix('!') {
+                                LItem::Null(a.parse().ok()?)
+                            } else {
+                                let k: usize = it.parse().ok()?;
+                                if k >= c.rg.len() {
+                                    return None;
+                                }
+                                LItem::Pool(k)
+                            });
+                        }
+                        MlSection::L(items)
+                    } else if let Some(b) = sec.strip_prefix("Q:") {
+                        let mut items = vec![];
+                        for it in b.split('.').filter(|x| !x.is_empty()) {
+                            let k: usize = it.parse().ok()?;
+                            if k >= c.rg.len() {
+                                return None;
+                            }
+                            items.push(k);
+                        }
+                        MlSection::Q(items)
+                    } else {
+                        return None;
+                    };
+                    let dup = c.ml.iter().any(|m| match (m, &item) {
+                        (MlSection::L(_), MlSection::L(_)) => true,
+                        (MlSection::L(_), _) | (_, MlSection::L(_)) => false,
+                        _ => true,
+                    });
+                    if dup {
+                        return None;
+                    }
+                    c.ml.push(item);
+                }
+            }
+            "si" => {
+                let p: Vec<&str> = v.split(':').collect();
+                if p.len() != 10 {
+                    return None;
+                }
+                c.si = Some(Sys {
+                    level: p[0].parse().ok()?,
+                    revision: p[1].parse().ok()?,
+                    ncpu: p[2].parse().ok()?,
+                    major: p[3].parse().ok()?,
+                    minor: p[4].parse().ok()?,
+                    build: p[5].parse().ok()?,
+                    csd: if p[6] == "-" { None } else { Some(Name::parse(p[6])?) },
+                    d: [p[7].parse().ok()?, p[8].parse().ok()?, p[9].parse().ok()?],
+                });
+            }
+            "lsb" => {
+                c.lsb = Some(parse_list(v, |t| {
+                    let (k, val) = t.split_once('~')?;
+                    if k.is_empty() {
+                        return None;
+                    }
+                    Some((k.to_string(), parse_text(val)?))
+                })?)
+            }
+            "mac" => {
+                c.mac = Some(parse_list(v, |t| {
+                    let p: Vec<&str> = t.split('/').collect();
+                    if p.len() != 9 {
+                        return None;
+                    }
+                    Some(MacRec {
+                        version: p[0].parse().ok()?,
+                        thread: p[1].parse().ok()?,
+                        dialog: p[2].parse().ok()?,
+                        abort: p[3].parse().ok()?,
+                        strs: [parse_text(p[4])?, parse_text(p[5])?, parse_text(p[6])?, parse_text(p[7])?, parse_text(p[8])?],
+                    })
+                })?)
+            }
+            "ba" => c.ba = Some(Name::parse(v)?),
+            "hd" => {
+                let n: u32 = v.parse().ok()?;
+                if n == 0 {
+                    return None;
+                }
+                c.hd = Some(n)
+            }
+            "ps" => c.ps = v.parse().ok()?,
+            _ => return None,
+        }
+    }
+    Some(c)
 }
 
 // ----------------------------------------------------------------------------- dump building
 
-/// a well-formed context of the given raw architecture with the given ip (sp = 0);
+fn endian(c: &Case) -> Endian {
+    if c.be {
+        Endian::Big
+    } else {
+        Endian::Little
+    }
+}
+
+/// a well-formed context of the given raw architecture with the given ip / sp / frame pointer;
 /// `None`: `MinidumpContext::read` has no format for this architecture.
-fn context_bytes(arch: u16, ip: u64, bad_flags: bool) -> Option<Vec<u8>> {
+fn context_bytes(arch: u16, be: bool, ip: u64, sp: u64, fp: u64, bad_flags: bool) -> Option<Vec<u8>> {
     use md::ContextFlagsCpu as F;
     use md::ProcessorArchitecture::*;
     use num_traits_shim::from_u16;
+    let en = if be { scroll::BE } else { scroll::LE };
     macro_rules! build {
         ($t:ty, |$c:ident| $body:block) => {{
-            let size = <$t>::size_with(&scroll::LE);
+            let size = <$t>::size_with(&en);
             let mut buf = vec![0u8; size];
-            let mut $c: $t = buf.pread_with(0, scroll::LE).ok()?;
+            let mut $c: $t = buf.pread_with(0, en).ok()?;
             $body
-            buf.pwrite_with($c, 0, scroll::LE).ok()?;
+            buf.pwrite_with($c, 0, en).ok()?;
             Some(buf)
         }};
     }
@@ -291,38 +722,53 @@ fn context_bytes(arch: u16, ip: u64, bad_flags: bool) -> Option<Vec<u8>> {
         PROCESSOR_ARCHITECTURE_INTEL | PROCESSOR_ARCHITECTURE_IA32_ON_WIN64 => build!(md::CONTEXT_X86, |c| {
             c.context_flags = if bad_flags { 0x3f } else { F::CONTEXT_X86.bits() | 0x3f };
             c.eip = ip as u32;
+            c.esp = sp as u32;
+            c.ebp = fp as u32;
         }),
         PROCESSOR_ARCHITECTURE_AMD64 => build!(md::CONTEXT_AMD64, |c| {
             c.context_flags = if bad_flags { 0x1f } else { F::CONTEXT_AMD64.bits() | 0x1f };
             c.rip = ip;
+            c.rsp = sp;
+            c.rbp = fp;
         }),
         PROCESSOR_ARCHITECTURE_PPC => build!(md::CONTEXT_PPC, |c| {
             c.context_flags = if bad_flags { 1 } else { F::CONTEXT_PPC.bits() | 1 };
             c.srr0 = ip as u32;
+            c.gpr[1] = sp as u32;
         }),
         PROCESSOR_ARCHITECTURE_PPC64 => build!(md::CONTEXT_PPC64, |c| {
             c.context_flags = if bad_flags { 1 } else { (F::CONTEXT_PPC64.bits() | 1) as u64 };
             c.srr0 = ip;
+            c.gpr[1] = sp;
         }),
         PROCESSOR_ARCHITECTURE_SPARC => build!(md::CONTEXT_SPARC, |c| {
             c.context_flags = if bad_flags { 1 } else { F::CONTEXT_SPARC.bits() | 1 };
             c.pc = ip;
+            c.g_r[14] = sp;
         }),
         PROCESSOR_ARCHITECTURE_ARM => build!(md::CONTEXT_ARM, |c| {
             c.context_flags = if bad_flags { 2 } else { F::CONTEXT_ARM.bits() | 2 };
             c.iregs[15] = ip as u32;
+            c.iregs[13] = sp as u32;
+            c.iregs[11] = fp as u32;
         }),
         PROCESSOR_ARCHITECTURE_ARM64 => build!(md::CONTEXT_ARM64, |c| {
             c.context_flags = if bad_flags { 0x1f } else { F::CONTEXT_ARM64.bits() | 0x1f };
             c.pc = ip;
+            c.sp = sp;
+            c.iregs[29] = fp;
         }),
         PROCESSOR_ARCHITECTURE_ARM64_OLD => build!(md::CONTEXT_ARM64_OLD, |c| {
             c.context_flags = if bad_flags { 2 } else { (F::CONTEXT_ARM64_OLD.bits() | 2) as u64 };
             c.pc = ip;
+            c.sp = sp;
+            c.iregs[29] = fp;
         }),
         PROCESSOR_ARCHITECTURE_MIPS => build!(md::CONTEXT_MIPS, |c| {
             c.context_flags = if bad_flags { 2 } else { F::CONTEXT_MIPS.bits() | 2 };
             c.epc = ip;
+            c.iregs[29] = sp;
+            c.iregs[30] = fp;
         }),
         _ => None,
     }
@@ -362,21 +808,22 @@ enum Loc {
     Section { sec: Section, cite_size: Option<u32> },
 }
 
-fn ctx_location(arch: u16, c: &Ctx) -> Loc {
+fn ctx_location(arch: u16, be: bool, c: &Ctx) -> Loc {
+    let en = if be { Endian::Big } else { Endian::Little };
     // for architectures without a context format an x86-shaped blob is written: it must be ignored
-    let fallback = |ip: u64, bad: bool| context_bytes(0, ip, bad).unwrap();
-    let bytes = |ip: u64, bad: bool| context_bytes(arch, ip, bad).unwrap_or_else(|| fallback(ip, bad));
+    let fallback = |ip: u64, sp: u64, fp: u64, bad: bool| context_bytes(0, be, ip, sp, fp, bad).unwrap();
+    let bytes = |ip: u64, sp: u64, fp: u64, bad: bool| context_bytes(arch, be, ip, sp, fp, bad).unwrap_or_else(|| fallback(ip, sp, fp, bad));
     match c {
-        Ctx::R(ip) => Loc::Section { sec: Section::with_endian(LE).append_bytes(&bytes(*ip, false)), cite_size: None },
+        Ctx::R { ip, sp, fp } => Loc::Section { sec: Section::with_endian(en).append_bytes(&bytes(*ip, *sp, *fp, false)), cite_size: None },
         Ctx::U(0) => Loc::Zero,
-        Ctx::U(1) => Loc::Outside(bytes(0, false).len() as u32),
+        Ctx::U(1) => Loc::Outside(bytes(0, 0, 0, false).len() as u32),
         Ctx::U(2) => {
-            let b = bytes(0x4444, false);
+            let b = bytes(0x4444, 0, 0, false);
             let n = b.len() as u32 - 1;
-            Loc::Section { sec: Section::with_endian(LE).append_bytes(&b), cite_size: Some(n) }
+            Loc::Section { sec: Section::with_endian(en).append_bytes(&b), cite_size: Some(n) }
         }
-        Ctx::U(3) => Loc::Section { sec: Section::with_endian(LE).append_bytes(&bytes(0x5555, true)), cite_size: None },
-        Ctx::U(_) => Loc::Section { sec: Section::with_endian(LE).append_bytes(&bytes(0x6666, false)), cite_size: Some(0) },
+        Ctx::U(3) => Loc::Section { sec: Section::with_endian(en).append_bytes(&bytes(0x5555, 0, 0, true)), cite_size: None },
+        Ctx::U(_) => Loc::Section { sec: Section::with_endian(en).append_bytes(&bytes(0x6666, 0, 0, false)), cite_size: Some(0) },
     }
 }
 
@@ -396,42 +843,160 @@ fn cite_ctx(mut dump: synth::SynthMinidump, entry: Section, loc: Loc) -> (synth:
     }
 }
 
+/// a MINIDUMP_STRING with arbitrary UTF-16 code units
+fn dump_string(units: &[u16], en: Endian) -> Section {
+    let mut s = Section::with_endian(en).D32((units.len() * 2) as u32);
+    for u in units {
+        s = s.D16(*u);
+    }
+    s
+}
+
+/// rva of a name (a string section added to the dump, or an rva outside the file)
+fn cite_name(mut dump: synth::SynthMinidump, name: &Name, en: Endian) -> (synth::SynthMinidump, Label) {
+    match name {
+        Name::Bad => (dump, Label::from_const(0xffff_fff0)),
+        Name::Units(u) => {
+            let s = dump_string(u, en);
+            let l = s.file_offset();
+            dump = dump.add(s);
+            (dump, l)
+        }
+    }
+}
+
 fn build_dump(c: &Case) -> Vec<u8> {
-    let mut dump = synth::SynthMinidump::with_endian(LE);
-    dump = dump.add_system_info(
-        synth::SystemInfo::new(LE).set_processor_architecture(c.cpu).set_platform_id(c.os),
-    );
-    // thread list (raw entries: no stack memory, explicit context location)
+    let en = endian(c);
+    let mut dump = synth::SynthMinidump::with_endian(en);
+    // --- system info (raw, so that csd_version_rva can cite a string)
+    {
+        let dflt = Sys { level: 6, revision: 0, ncpu: 1, major: 0, minor: 0, build: 0, csd: None, d: [0; 3] };
+        let si = c.si.as_ref().unwrap_or(&dflt);
+        let csd = match &si.csd {
+            None => Label::from_const(0),
+            Some(n) => {
+                let (d, l) = cite_name(dump, n, en);
+                dump = d;
+                l
+            }
+        };
+        let s = Section::with_endian(en)
+            .D16(c.cpu)
+            .D16(si.level)
+            .D16(si.revision)
+            .D8(si.ncpu)
+            .D8(0)
+            .D32(si.major)
+            .D32(si.minor)
+            .D32(si.build)
+            .D32(c.os)
+            .D32(&csd)
+            .D16(0)
+            .D16(0)
+            .D32(si.d[0])
+            .D32(si.d[1])
+            .D32(si.d[2])
+            .D32(0)
+            .D32(0)
+            .D32(0);
+        dump = dump.add_stream(synth::SimpleStream { stream_type: md::MINIDUMP_STREAM_TYPE::SystemInfoStream as u32, section: s });
+    }
+    // --- pool regions that are cited by a thread or by the memory list get a section of their own
+    let mut cited: BTreeSet<usize> = BTreeSet::new();
+    for t in c.th.iter().flatten() {
+        if let Some((_, Own::Pool(k))) = t.stack {
+            cited.insert(k);
+        }
+    }
+    for m in &c.ml {
+        if let MlSection::L(items) = m {
+            for i in items {
+                if let LItem::Pool(k) = i {
+                    cited.insert(*k);
+                }
+            }
+        }
+    }
+    let mut locs: BTreeMap<usize, (Label, u32)> = BTreeMap::new();
+    for k in &cited {
+        let bytes = c.rg[*k].bytes();
+        let sec = Section::with_endian(en).append_bytes(&bytes);
+        locs.insert(*k, (sec.file_offset(), bytes.len() as u32));
+        dump = dump.add(sec);
+    }
+    // --- memory lists
+    for m in &c.ml {
+        match m {
+            MlSection::X => {
+                dump = dump.add_stream(synth::SimpleStream {
+                    stream_type: md::MINIDUMP_STREAM_TYPE::Memory64ListStream as u32,
+                    section: Section::with_endian(en).D32(1),
+                });
+            }
+            MlSection::Q(items) => {
+                let mut blob = Section::with_endian(en);
+                let mut list = synth::Memory64ListStream::new(en, &blob.file_offset());
+                for k in items {
+                    let bytes = c.rg[*k].bytes();
+                    let mem = synth::Memory::with_section(Section::with_endian(en).append_bytes(&bytes), c.rg[*k].base);
+                    list = list.add_memory(&mem);
+                    blob = blob.append_bytes(&bytes);
+                }
+                dump = dump.add_stream(list).add(blob);
+            }
+            MlSection::L(items) => {
+                let mut list = synth::ListStream::<Section>::new(md::MINIDUMP_STREAM_TYPE::MemoryListStream, en);
+                for it in items {
+                    let d = match it {
+                        LItem::Null(b) => Section::with_endian(en).D64(*b).D32(16).D32(0),
+                        LItem::Pool(k) => {
+                            let (off, size) = &locs[k];
+                            Section::with_endian(en).D64(c.rg[*k].base).D32(*size).D32(off)
+                        }
+                    };
+                    list = list.add(d);
+                }
+                dump = dump.add_stream(list);
+            }
+        }
+    }
+    // --- thread list (raw entries)
     if let Some(threads) = &c.th {
-        let mut list = synth::ListStream::<Section>::new(md::MINIDUMP_STREAM_TYPE::ThreadListStream, LE);
-        for (id, ctx) in threads {
-            let entry = Section::with_endian(LE)
-                .D32(*id)
+        let mut list = synth::ListStream::<Section>::new(md::MINIDUMP_STREAM_TYPE::ThreadListStream, en);
+        for t in threads {
+            let entry = Section::with_endian(en)
+                .D32(t.id)
                 .D32(0) // suspend_count
                 .D32(0) // priority_class
                 .D32(0) // priority
-                .D64(0) // teb
-                .D64(0) // stack.start_of_memory_range
-                .D32(0) // stack.memory.data_size
-                .D32(0); // stack.memory.rva
-            let (d, entry) = cite_ctx(dump, entry, ctx_location(c.cpu, ctx));
+                .D64(0); // teb
+            let entry = match &t.stack {
+                None => entry.D64(0).D32(0).D32(0),
+                Some((start, Own::Null)) => entry.D64(*start).D32(64).D32(0),
+                Some((start, Own::Outside)) => entry.D64(*start).D32(64).D32(0xffff_ff00u32),
+                Some((start, Own::Pool(k))) => {
+                    let (off, size) = &locs[k];
+                    entry.D64(*start).D32(*size).D32(off)
+                }
+            };
+            let (d, entry) = cite_ctx(dump, entry, ctx_location(c.cpu, c.be, &t.ctx));
             dump = d;
             list = list.add(entry);
         }
         dump = dump.add_stream(list);
     }
     if let Some(names) = &c.nm {
-        let mut list = synth::ListStream::<Section>::new(md::MINIDUMP_STREAM_TYPE::ThreadNamesStream, LE);
+        let mut list = synth::ListStream::<Section>::new(md::MINIDUMP_STREAM_TYPE::ThreadNamesStream, en);
         for (id, name) in names {
-            let entry = Section::with_endian(LE).D32(*id);
+            let entry = Section::with_endian(en).D32(*id);
             let entry = match name {
-                Some(n) => {
-                    let s = synth::DumpString::new(n, LE);
+                Name::Bad => entry.D64(0xffff_ffff_ffff_ffffu64),
+                Name::Units(u) => {
+                    let s = dump_string(u, en);
                     let e = entry.D64(s.file_offset());
                     dump = dump.add(s);
                     e
                 }
-                None => entry.D64(0xffff_ffff_ffff_ffffu64),
             };
             list = list.add(entry);
         }
@@ -440,7 +1005,7 @@ fn build_dump(c: &Case) -> Vec<u8> {
     if let Some((v, d, r)) = c.bp {
         dump = dump.add_stream(synth::SimpleStream {
             stream_type: md::MINIDUMP_STREAM_TYPE::BreakpadInfoStream as u32,
-            section: Section::with_endian(LE).D32(v).D32(d).D32(r),
+            section: Section::with_endian(en).D32(v).D32(d).D32(r),
         });
     }
     match &c.ex {
@@ -448,11 +1013,11 @@ fn build_dump(c: &Case) -> Vec<u8> {
         ExcSpec::Short => {
             dump = dump.add_stream(synth::SimpleStream {
                 stream_type: md::MINIDUMP_STREAM_TYPE::ExceptionStream as u32,
-                section: Section::with_endian(LE).D32(1).D32(0).D32(0xc0000005u32),
+                section: Section::with_endian(en).D32(1).D32(0).D32(0xc0000005u32),
             });
         }
         ExcSpec::Some(e) => {
-            let mut s = Section::with_endian(LE)
+            let mut s = Section::with_endian(en)
                 .D32(e.tid)
                 .D32(0)
                 .D32(e.code)
@@ -469,7 +1034,7 @@ fn build_dump(c: &Case) -> Vec<u8> {
                     _ => 0xdead_0000 + i,
                 });
             }
-            let (d, s) = cite_ctx(dump, s, ctx_location(c.cpu, &e.ctx));
+            let (d, s) = cite_ctx(dump, s, ctx_location(c.cpu, c.be, &e.ctx));
             dump = d.add_stream(synth::SimpleStream {
                 stream_type: md::MINIDUMP_STREAM_TYPE::ExceptionStream as u32,
                 section: s,
@@ -481,7 +1046,7 @@ fn build_dump(c: &Case) -> Vec<u8> {
         MiscSpec::Short => {
             dump = dump.add_stream(synth::SimpleStream {
                 stream_type: md::MINIDUMP_STREAM_TYPE::MiscInfoStream as u32,
-                section: Section::with_endian(LE).D32(8).D32(3),
+                section: Section::with_endian(en).D32(8).D32(3),
             });
         }
         MiscSpec::Some { flags, pid, ctime, ver } => {
@@ -492,7 +1057,7 @@ fn build_dump(c: &Case) -> Vec<u8> {
                 4 => md::MINIDUMP_MISC_INFO_4::size_with(&scroll::LE),
                 _ => md::MINIDUMP_MISC_INFO_5::size_with(&scroll::LE),
             };
-            let s = Section::with_endian(LE)
+            let s = Section::with_endian(en)
                 .D32(size as u32)
                 .D32(*flags)
                 .D32(*pid)
@@ -513,16 +1078,108 @@ fn build_dump(c: &Case) -> Vec<u8> {
         }
         dump = dump.set_linux_proc_status(text.as_bytes());
     }
-    for m in &c.mo {
-        let name = synth::DumpString::new(&m.name, LE);
-        dump = dump.add_module(synth::Module::new(LE, m.base, m.size, &name, 0, 0, None)).add(name);
+    if let Some(l) = &c.lsb {
+        let mut text = String::new();
+        for (i, (k, v)) in l.iter().enumerate() {
+            // quoting and padding that `linux_list_iter` strips
+            match i % 3 {
+                0 => {
+                    let _ = write!(text, "{k}={v}\n");
+                }
+                1 => {
+                    let _ = write!(text, "{k}=\"{v}\"\n");
+                }
+                _ => {
+                    let _ = write!(text, " {k} = {v} \n");
+                }
+            }
+        }
+        dump = dump.set_linux_lsb_release(text.as_bytes());
     }
-    for m in &c.um {
-        let name = synth::DumpString::new(&m.name, LE);
-        dump = dump.add_unloaded_module(synth::UnloadedModule::new(LE, m.base, m.size, &name, 0, 0)).add(name);
+    // --- modules (raw entries: names are arbitrary code units)
+    if !c.mo.is_empty() {
+        let mut list = synth::ListStream::<Section>::new(md::MINIDUMP_STREAM_TYPE::ModuleListStream, en);
+        for m in &c.mo {
+            let (d, name) = cite_name(dump, &m.name, en);
+            dump = d;
+            let mut e = Section::with_endian(en).D64(m.base).D32(m.size).D32(0).D32(0).D32(&name);
+            for _ in 0..13 {
+                e = e.D32(0); // VS_FIXEDFILEINFO
+            }
+            e = e.D32(0).D32(0).D32(0).D32(0).D64(0).D64(0); // cv_record, misc_record, reserved
+            list = list.add(e);
+        }
+        dump = dump.add_stream(list);
+    }
+    if !c.um.is_empty() {
+        let mut list = synth::ExListStream::<Section>::new(
+            md::MINIDUMP_STREAM_TYPE::UnloadedModuleListStream,
+            std::mem::size_of::<md::MINIDUMP_UNLOADED_MODULE>(),
+            en,
+        );
+        for m in &c.um {
+            let (d, name) = cite_name(dump, &m.name, en);
+            dump = d;
+            list = list.add(Section::with_endian(en).D64(m.base).D32(m.size).D32(0).D32(0).D32(&name));
+        }
+        dump = dump.add_stream(list);
+    }
+    // --- macOS crash info: every record is written with the V5 fixed part (40 bytes)
+    if let Some(recs) = &c.mac {
+        let ty = md::MINIDUMP_STREAM_TYPE::MozMacosCrashInfoStream as u32;
+        let mut head = Section::with_endian(en).D32(ty).D32(recs.len() as u32).D32(40);
+        for i in 0..20 {
+            if let Some(r) = recs.get(i) {
+                let mut s = Section::with_endian(en).D64(ty as u64).D64(r.version).D64(r.thread).D64(r.dialog).D64(r.abort);
+                for x in &r.strs {
+                    s = s.append_bytes(x.as_bytes()).D8(0);
+                }
+                head = head.cite_location(&s);
+                dump = dump.add(s);
+            } else {
+                head = head.D32(0).D32(0);
+            }
+        }
+        dump = dump.add_stream(synth::SimpleStream { stream_type: ty, section: head });
+    }
+    if let Some(b) = &c.ba {
+        let ty = md::MINIDUMP_STREAM_TYPE::MozMacosBootargsStream as u32;
+        let (d, l) = cite_name(dump, b, en);
+        dump = d.add_stream(synth::SimpleStream { stream_type: ty, section: Section::with_endian(en).D32(ty).D64(&l) });
+    }
+    if let Some(n) = c.hd {
+        for i in 0..n {
+            dump = dump.add_handle_descriptor(synth::HandleDescriptor::new(en, 0x100 + i as u64, None, None, 0, 0, 1, 1));
+        }
+    }
+    if c.ps & 1 != 0 {
+        let mut list = synth::ExListStream::<Section>::new(md::MINIDUMP_STREAM_TYPE::ThreadInfoListStream, 64, en);
+        for t in c.th.iter().flatten().take(3) {
+            list = list.add(Section::with_endian(en).D32(t.id).D32(0).D32(0).D32(0).D64(1).D64(2).D64(3).D64(4).D64(5).D64(6));
+        }
+        dump = dump.add_stream(list);
+    }
+    if c.ps & 2 != 0 {
+        dump = dump.add_crashpad_info(synth::CrashpadInfo::new(en).add_simple_annotation("channel", "nightly"));
+    }
+    if c.ps & 4 != 0 {
+        let mut s = Section::with_endian(en);
+        for text in ["x != 0", "crash_me", "crash.cc"] {
+            let mut n = 0;
+            for u in text.encode_utf16() {
+                s = s.D16(u);
+                n += 1;
+            }
+            s = s.append_repeated(0, (128 - n) * 2);
+        }
+        dump = dump.add_stream(synth::SimpleStream { stream_type: md::MINIDUMP_STREAM_TYPE::AssertionInfoStream as u32, section: s.D32(42).D32(1) });
+    }
+    if c.ps & 8 != 0 {
+        dump = dump.add_memory_info(synth::MemoryInfo::new(en, 0x10000, 0x10000, 4, 0x1000, 0x1000, 4, 0x20000));
     }
     let mut bytes = dump.finish().expect("synth dump");
-    bytes[20..24].copy_from_slice(&c.ts.to_le_bytes());
+    let ts = if c.be { c.ts.to_be_bytes() } else { c.ts.to_le_bytes() };
+    bytes[20..24].copy_from_slice(&ts);
     bytes
 }
 
@@ -548,6 +1205,61 @@ struct Seen {
     state: Option<minidump_processor::ProcessState>,
 }
 
+thread_local! {
+    static RT: tokio::runtime::Runtime = tokio::runtime::Builder::new_current_thread().build().unwrap();
+}
+
+fn show_offsets(f: &minidump_unwind::StackFrame) -> String {
+    let mut offs: Vec<String> = vec![];
+    for (name, set) in &f.unloaded_modules {
+        offs.push(format!("{}={}", show_name(name), set.iter().map(|o| o.to_string()).collect::<Vec<_>>().join("+")));
+    }
+    offs.join("&")
+}
+
+/// one frame in the model's format (`Walk.showFrame` + unloaded offsets)
+fn show_frame(f: &minidump_unwind::StackFrame, mods: &[(u64, u64, String)], with_offsets: bool) -> String {
+    let m = match &f.module {
+        Some(m) => mods
+            .iter()
+            .position(|(b, z, n)| *b == m.base_address() && *z == m.size() && *n == m.name)
+            .map(|i| i.to_string())
+            .unwrap_or_else(|| "?".into()),
+        None => "-".into(),
+    };
+    let func = match (&f.function_name, f.function_base, f.parameter_size) {
+        (Some(n), Some(b), Some(p)) => format!("{n}@{b}/{p}"),
+        (None, None, None) => "-".into(),
+        _ => "?".into(),
+    };
+    let valid = match &f.context.valid {
+        MinidumpContextValidity::All => "all".to_string(),
+        MinidumpContextValidity::Some(set) => {
+            let mut names: Vec<&&str> = set.iter().collect();
+            names.sort();
+            names.iter().map(|n| format!("{}={}", n, f.context.get_register_always(n))).collect::<Vec<_>>().join(",")
+        }
+    };
+    let mut s = format!(
+        "{}|ip={}|in={}|sp={}|m={}|f={}|v={}",
+        f.trust.as_str(),
+        f.context.get_instruction_pointer(),
+        f.instruction,
+        f.context.get_stack_pointer(),
+        m,
+        func,
+        valid
+    );
+    if with_offsets {
+        let _ = write!(s, "|u={}", show_offsets(f));
+    }
+    s
+}
+
+fn state_mods(state: &minidump_processor::ProcessState) -> Vec<(u64, u64, String)> {
+    state.modules.iter().map(|m| (m.base_address(), m.size(), m.name.clone())).collect()
+}
+
 fn run_impl(c: &Case) -> Seen {
     let bytes = build_dump(c);
     let dump = match Minidump::read(bytes) {
@@ -555,12 +1267,12 @@ fn run_impl(c: &Case) -> Seen {
         Err(e) => return Seen { out: format!("err:read:{e:?}"), state: None },
     };
     let provider = minidump_unwind::Symbolizer::new(minidump_unwind::string_symbol_supplier(Default::default()));
-    let rt = tokio::runtime::Builder::new_current_thread().build().expect("tokio runtime");
-    let res = rt.block_on(minidump_processor::process_minidump(&dump, &provider));
+    let res = RT.with(|rt| rt.block_on(minidump_processor::process_minidump(&dump, &provider)));
     let state = match res {
         Ok(s) => s,
         Err(e) => return Seen { out: format!("err:{}", e.name()), state: None },
     };
+    let mods = state_mods(&state);
     let mut out = String::from("threads:");
     for (i, t) in state.threads.iter().enumerate() {
         if i > 0 {
@@ -572,26 +1284,8 @@ fn run_impl(c: &Case) -> Seen {
             minidump_unwind::CallStackInfo::DumpThreadSkipped => "skipped",
             _ => "other",
         };
-        let mut offs: Vec<String> = vec![];
-        let mut extra = String::new();
-        if let Some(f) = t.frames.first() {
-            for (name, set) in &f.unloaded_modules {
-                offs.push(format!("{}={}", name, set.iter().map(|o| o.to_string()).collect::<Vec<_>>().join("+")));
-            }
-        }
-        if t.frames.len() > 1 {
-            let _ = write!(extra, "/frames={}", t.frames.len());
-        }
-        let _ = write!(
-            out,
-            "{}/{}/{}/{}/{}{}",
-            t.thread_id,
-            t.thread_name.as_deref().unwrap_or("-"),
-            info,
-            opt(t.frames.first().map(|f| f.instruction)),
-            offs.join("&"),
-            extra
-        );
+        let frames: Vec<String> = t.frames.iter().map(|f| show_frame(f, &mods, true)).collect();
+        let _ = write!(out, "{}/{}/{}/{}", t.thread_id, show_opt_name(t.thread_name.as_deref()), info, frames.join("^"));
     }
     let _ = write!(out, " req:{}", opt(state.requesting_thread));
     match &state.exception_info {
@@ -608,13 +1302,73 @@ fn run_impl(c: &Case) -> Seen {
         opt(secs(state.time))
     );
     let ml = |it: Vec<(u64, u64, String)>| {
-        it.iter().map(|(b, s, n)| format!("{b}:{s}:{n}")).collect::<Vec<_>>().join(",")
+        it.iter().map(|(b, s, n)| format!("{b}:{s}:{}", show_name(n))).collect::<Vec<_>>().join(",")
     };
     let _ = write!(
         out,
         " mods:{} umods:{}",
         ml(state.modules.iter().map(|m| (m.base_address(), m.size(), m.code_file().to_string())).collect()),
         ml(state.unloaded_modules.iter().map(|m| (m.base_address(), m.size(), m.code_file().to_string())).collect())
+    );
+    let si = &state.system_info;
+    let _ = write!(
+        out,
+        " sys:{}/{}/{}/{}",
+        show_opt_name(si.os_version.as_deref()),
+        show_opt_name(si.os_build.as_deref()),
+        show_opt_name(si.cpu_info.as_deref()),
+        si.cpu_count
+    );
+    match &state.linux_standard_base {
+        None => out.push_str(" lsb:-"),
+        Some(l) => {
+            let _ = write!(out, " lsb:{}/{}/{}/{}", show_name(&l.id), show_name(&l.release), show_name(&l.codename), show_name(&l.description));
+        }
+    }
+    match &state.mac_crash_info {
+        None => out.push_str(" mac:-"),
+        Some(rs) if rs.is_empty() => out.push_str(" mac:."),
+        Some(rs) => {
+            let items: Vec<String> = rs
+                .iter()
+                .map(|r| {
+                    let strs = |s: &md::MINIDUMP_MAC_CRASH_INFO_RECORD_STRINGS_4| {
+                        [&s.module_path, &s.message, &s.signature_string, &s.backtrace, &s.message2].iter().map(|x| show_name(x)).collect::<Vec<_>>().join("/")
+                    };
+                    match r {
+                        RawMacCrashInfo::V1(f, _) => format!("v1/{}/-/-/-/", f.version),
+                        RawMacCrashInfo::V4(f, s) => format!("v4/{}/{}/{}/-/{}", f.version, f.thread, f.dialog_mode, strs(s)),
+                        RawMacCrashInfo::V5(f, s) => {
+                            let s4 = md::MINIDUMP_MAC_CRASH_INFO_RECORD_STRINGS_4 {
+                                module_path: s.module_path.clone(),
+                                message: s.message.clone(),
+                                signature_string: s.signature_string.clone(),
+                                backtrace: s.backtrace.clone(),
+                                message2: s.message2.clone(),
+                            };
+                            format!("v5/{}/{}/{}/{}/{}", f.version, f.thread, f.dialog_mode, f.abort_cause, strs(&s4))
+                        }
+                    }
+                })
+                .collect();
+            let _ = write!(out, " mac:{}", items.join(","));
+        }
+    }
+    match &state.mac_boot_args {
+        None => out.push_str(" ba:-"),
+        Some(b) => match &b.bootargs {
+            None => out.push_str(" ba:!"),
+            Some(s) => {
+                let _ = write!(out, " ba:{}", show_name(s));
+            }
+        },
+    }
+    let _ = write!(
+        out,
+        " as:{} certs:{} hd:{}",
+        show_opt_name(state.assertion.as_deref()),
+        state.cert_info.len(),
+        opt(state.handles.as_ref().map(|h| h.iter().count()))
     );
     Seen { out, state: Some(state) }
 }
@@ -623,7 +1377,124 @@ fn run_impl(c: &Case) -> Seen {
 // The property, re-stated independently of the Lean model, on the implementation's ProcessState.
 
 fn arch_has_context(arch: u16) -> bool {
-    context_bytes(arch, 0, false).is_some()
+    context_bytes(arch, false, 0, 0, 0, false).is_some()
+}
+
+/// name of the architecture for the `walk` engine's helpers; `None`: no unwinder for its contexts
+fn walk_arch(cpu: u16) -> Option<&'static str> {
+    match cpu {
+        0 | 10 => Some("x86"),
+        9 => Some("amd64"),
+        5 => Some("arm"),
+        12 => Some("arm64"),
+        0x8003 => Some("arm64old"),
+        1 => Some("mips32"),
+        _ => None,
+    }
+}
+
+/// the regions `get_memory()` serves, in stream order (documented rule: the memory-64 list when the
+/// dump has a readable one, else the memory list; descriptors that cannot be read are skipped)
+fn memory_list(c: &Case) -> Vec<(u64, Vec<u8>)> {
+    if let Some(MlSection::Q(items)) = c.ml.iter().find(|m| matches!(m, MlSection::Q(_))) {
+        return items.iter().map(|k| (c.rg[*k].base, c.rg[*k].bytes())).collect();
+    }
+    if let Some(MlSection::L(items)) = c.ml.iter().find(|m| matches!(m, MlSection::L(_))) {
+        return items
+            .iter()
+            .filter_map(|i| match i {
+                LItem::Pool(k) if c.rg[*k].size > 0 => Some((c.rg[*k].base, c.rg[*k].bytes())),
+                _ => None,
+            })
+            .collect();
+    }
+    vec![]
+}
+
+fn covers(r: &(u64, Vec<u8>), a: u64) -> bool {
+    let n = r.1.len() as u64;
+    n > 0 && r.0.checked_add(n).is_some() && r.0 <= a && a - r.0 < n
+}
+
+fn valid_range(r: &(u64, Vec<u8>)) -> Option<(u64, u64)> {
+    let n = r.1.len() as u64;
+    if n == 0 {
+        return None;
+    }
+    Some((r.0, r.0.checked_add(n)? - 1))
+}
+
+/// The memories the property allows `walk_stack` to be given for a thread whose walk starts with
+/// stack pointer `sp` ("stack memory chosen to contain the context's stack pointer"): the thread's
+/// own stack memory if it holds a word at `sp`; else a region of the memory list that contains
+/// `sp`; else the thread's own. The thread's own memory is what its descriptor cites, or — when
+/// that cannot be read — a region of the list containing the descriptor's start address.
+/// A lookup in the memory list is C08's range table: a region that intersects no other region is
+/// found for every address inside it; of regions that overlap the table keeps one (so a lookup may
+/// return any region containing the address, or miss).
+fn allowed_memories(c: &Case, t: &Thread, sp: Option<u64>) -> Vec<Option<(u64, Vec<u8>)>> {
+    let list = memory_list(c);
+    // (regions containing `a`, the lookup may miss)
+    let lookup = |a: u64| -> (Vec<(u64, Vec<u8>)>, bool) {
+        let idx: Vec<usize> = (0..list.len()).filter(|i| covers(&list[*i], a)).collect();
+        let overlapped = idx.iter().any(|i| {
+            let (lo, hi) = valid_range(&list[*i]).unwrap();
+            (0..list.len()).any(|j| j != *i && valid_range(&list[j]).is_some_and(|(l2, h2)| lo <= h2 && l2 <= hi))
+        });
+        (idx.iter().map(|i| list[*i].clone()).collect(), idx.is_empty() || overlapped)
+    };
+    let by_addr = |a: u64| -> Vec<Option<(u64, Vec<u8>)>> {
+        let (found, may_miss) = lookup(a);
+        let mut v: Vec<Option<(u64, Vec<u8>)>> = found.into_iter().map(Some).collect();
+        if may_miss {
+            v.push(None);
+        }
+        v
+    };
+    let owns: Vec<Option<(u64, Vec<u8>)>> = match &t.stack {
+        Some((start, Own::Pool(k))) if c.rg[*k].size > 0 => vec![Some((*start, c.rg[*k].bytes()))],
+        Some((start, _)) => by_addr(*start),
+        None => by_addr(0),
+    };
+    let Some(sp) = sp else { return owns };
+    let mut out = vec![];
+    for own in owns {
+        let holds = own.as_ref().is_some_and(|(b, bytes)| sp >= *b && (sp - b).checked_add(8).is_some_and(|e| e <= bytes.len() as u64));
+        if holds {
+            out.push(own);
+            continue;
+        }
+        let (found, may_miss) = lookup(sp);
+        out.extend(found.into_iter().map(Some));
+        // the stack pointer inside the thread's own memory, less than a 64-bit word before its end:
+        // the property is satisfied by either choice
+        if may_miss || own.as_ref().is_some_and(|o| covers(o, sp)) {
+            out.push(own);
+        }
+    }
+    out
+}
+
+/// the real `walk_stack` from the given context on the given memory (what the state's call stack
+/// must be, for one of the allowed memories)
+fn reference_walk(c: &Case, ctx: &MinidumpContext, mem: &Option<(u64, Vec<u8>)>, modules: &MinidumpModuleList, sysinfo: &minidump_unwind::SystemInfo) -> Vec<String> {
+    let mods: Vec<(u64, u64, String)> = modules.iter().map(|m| (m.base_address(), m.size(), m.name.clone())).collect();
+    let symbolizer = minidump_unwind::Symbolizer::new(minidump_unwind::string_symbol_supplier(Default::default()));
+    let mut stack = minidump_unwind::CallStack::with_context(ctx.clone());
+    let m = mem.as_ref().map(|(base, bytes)| MinidumpMemory {
+        desc: Default::default(),
+        base_address: *base,
+        size: bytes.len() as u64,
+        bytes,
+        endian: if c.be { scroll::BE } else { scroll::LE },
+    });
+    RT.with(|rt| rt.block_on(minidump_unwind::walk_stack(0, (), &mut stack, m.as_ref().map(UnifiedMemory::Memory), modules, sysinfo, &symbolizer)));
+    stack.frames.iter().map(|f| show_frame(f, &mods, false)).collect()
+}
+
+/// `Name` of a key/value text field of the documented LSB rule: last entry of the group
+fn last_of<'a>(kv: &'a [(String, String)], keys: &[&str]) -> &'a str {
+    kv.iter().rev().find(|(k, _)| keys.contains(&k.as_str())).map(|(_, v)| v.as_str()).unwrap_or("")
 }
 
 fn oracle(c: &Case, seen: &Seen) -> Vec<(String, String)> {
@@ -650,16 +1521,17 @@ fn oracle(c: &Case, seen: &Seen) -> Vec<(String, String)> {
         ExcSpec::Some(e) => Some(e),
         _ => None,
     };
-    let name_of = |id: u32| -> Option<&str> {
-        c.nm.as_ref()?.iter().rev().find(|(i, n)| *i == id && n.is_some()).and_then(|(_, n)| n.as_deref())
+    let name_of = |id: u32| -> Option<String> {
+        c.nm.as_ref()?.iter().rev().filter(|(i, _)| *i == id).find_map(|(_, n)| n.decoded())
     };
-    for (i, ((id, _), s)) in threads.iter().zip(st.threads.iter()).enumerate() {
-        if s.thread_id != *id {
+    for (i, (t, s)) in threads.iter().zip(st.threads.iter()).enumerate() {
+        let id = t.id;
+        if s.thread_id != id {
             fail("stack-order-or-id", format!("stack {i} has id {} but thread {i} has id {id}", s.thread_id));
         }
-        if s.thread_name.as_deref() != name_of(*id) {
-            let class = if Some(*id) == dump_id { "dump-thread-name-dropped" } else { "thread-name" };
-            fail(class, format!("stack {i} (id {id}) is named {:?}, the names stream says {:?}", s.thread_name, name_of(*id)));
+        if s.thread_name != name_of(id) {
+            let class = if Some(id) == dump_id { "dump-thread-name-dropped" } else { "thread-name" };
+            fail(class, format!("stack {i} (id {id}) is named {:?}, the names stream says {:?}", s.thread_name, name_of(id)));
         }
     }
     // 2. requesting thread: the non-dump-writer thread named by the exception record, else Breakpad's
@@ -667,34 +1539,63 @@ fn oracle(c: &Case, seen: &Seen) -> Vec<(String, String)> {
         Some(e) => Some(e.tid),
         None => bp_req,
     };
-    let expect_req = threads.iter().rposition(|(id, _)| Some(*id) == rid && Some(*id) != dump_id);
+    let expect_req = threads.iter().rposition(|t| Some(t.id) == rid && Some(t.id) != dump_id);
     if st.requesting_thread != expect_req {
         fail("requesting-thread", format!("requesting_thread = {:?}, expected {:?}", st.requesting_thread, expect_req));
     }
     if let Some(r) = st.requesting_thread {
-        if r >= threads.len() || Some(threads[r].0) == dump_id {
+        if r >= threads.len() || Some(threads[r].id) == dump_id {
             fail("requesting-thread-is-dump-thread", format!("requesting_thread = {r}"));
         }
     }
+    // the module lists the streams describe (entries with an impossible size excepted; a name that
+    // cannot be read makes the stream unreadable)
+    let valid = |m: &Mod| m.size != 0 && (m.size as u64) <= u64::MAX - m.base;
+    let kept: Vec<&Mod> = c.mo.iter().filter(|m| valid(m)).collect();
+    let want_mods: Vec<(u64, u64, String)> = if kept.iter().all(|m| m.name.decoded().is_some()) {
+        kept.iter().map(|m| (m.base, m.size as u64, m.name.decoded().unwrap())).collect()
+    } else {
+        vec![]
+    };
+    let want_um: Vec<(u64, u64, String)> = if c.um.iter().all(|m| valid(m) && m.name.decoded().is_some()) {
+        c.um.iter().map(|m| (m.base, m.size as u64, m.name.decoded().unwrap())).collect()
+    } else {
+        vec![]
+    };
     // 3. the walk starts from the exception's context when one can be read
     let readable = |x: &Ctx| match x {
-        Ctx::R(ip) if arch_has_context(c.cpu) => Some(*ip),
+        Ctx::R { ip, sp, fp } if arch_has_context(c.cpu) => Some((*ip, *sp, *fp)),
         _ => None,
     };
-    for (i, ((id, tctx), s)) in threads.iter().zip(st.threads.iter()).enumerate() {
-        let skipped = Some(*id) == dump_id;
-        let is_req = !skipped && Some(*id) == rid;
+    let sysinfo = minidump_unwind::SystemInfo {
+        os: Os::from_platform_id(c.os),
+        os_version: None,
+        os_build: None,
+        cpu: Cpu::from_processor_architecture(c.cpu),
+        cpu_info: None,
+        cpu_microcode_version: None,
+        cpu_count: 1,
+    };
+    for (i, (t, s)) in threads.iter().zip(st.threads.iter()).enumerate() {
+        let id = t.id;
+        let skipped = Some(id) == dump_id;
+        let is_req = !skipped && Some(id) == rid;
         let expect = if skipped {
             None
         } else if is_req {
-            exc.and_then(|e| readable(&e.ctx)).or(readable(tctx))
+            exc.and_then(|e| readable(&e.ctx)).or(readable(&t.ctx))
         } else {
-            readable(tctx)
+            readable(&t.ctx)
         };
-        let got = s.frames.first().map(|f| f.instruction);
-        if got != expect {
+        let got = s.frames.first().map(|f| (f.instruction, f.context.get_stack_pointer()));
+        if got != expect.map(|e| (e.0, e.1)) {
             let class = if is_req { "context-preference" } else { "thread-context" };
-            fail(class, format!("stack {i}: first frame instruction {got:?}, expected {expect:?}"));
+            fail(class, format!("stack {i}: first frame (instruction, sp) {got:?}, expected {:?}", expect.map(|e| (e.0, e.1))));
+        }
+        if let Some(f) = s.frames.first() {
+            if f.trust != minidump_unwind::FrameTrust::Context {
+                fail("context-frame-trust", format!("stack {i}: first frame has trust {}", f.trust.as_str()));
+            }
         }
         let info_ok = match (&s.info, skipped, expect) {
             (minidump_unwind::CallStackInfo::DumpThreadSkipped, true, _) => true,
@@ -705,27 +1606,82 @@ fn oracle(c: &Case, seen: &Seen) -> Vec<(String, String)> {
         if !info_ok {
             fail("stack-info", format!("stack {i}: info {:?}", s.info));
         }
-        // 7. unloaded modules with per-frame offsets
-        if let Some(f) = s.frames.first() {
+        if expect.is_none() && !s.frames.is_empty() {
+            fail("frames-without-context", format!("stack {i}: {} frames", s.frames.len()));
+        }
+        // 3b. the stack memory of the walk is the one that contains the start context's stack pointer:
+        //     the call stack must be what the (real) walker yields from the start context on one of
+        //     the memories the rule allows
+        if let (Some((_, sp, _)), Some(f0)) = (expect, s.frames.first()) {
+            let allowed = allowed_memories(c, t, Some(sp));
+            let got: Vec<String> = s.frames.iter().map(|f| show_frame(f, &want_mods, false)).collect();
+            let mut matched: Option<Option<(u64, Vec<u8>)>> = None;
+            let mut refs = vec![];
+            for m in &allowed {
+                let r = reference_walk(c, &f0.context, m, &st.modules, &sysinfo);
+                if r == got {
+                    matched = Some(m.clone());
+                    break;
+                }
+                refs.push(r.join("^"));
+            }
+            match matched {
+                None => fail(
+                    "stack-memory-selection",
+                    format!(
+                        "stack {i} (sp {sp:#x}): frames {} are not the walk on the memory that contains the stack pointer ({} allowed: {})",
+                        got.join("^"),
+                        allowed.len(),
+                        refs.join(" || ")
+                    ),
+                ),
+                Some(m) => {
+                    // C05's well-formedness and C03's bound hold for every stack of the process state
+                    if let Some(arch) = walk_arch(c.cpu) {
+                        if !c.be {
+                            let wc = walk::Case {
+                                engine: "walk".into(),
+                                arch: arch.into(),
+                                os: "linux".into(),
+                                regs: vec![(walk::ip_name(arch).to_string(), f0.context.get_instruction_pointer())],
+                                valid: None,
+                                stack: m.clone(),
+                                mods: vec![],
+                                syms: vec![],
+                                symraw: vec![],
+                                extra: vec![],
+                            };
+                            for (cl, d) in walk::wf_oracle(&wc, s) {
+                                fail(&format!("stack-not-well-formed:{cl}"), format!("stack {i}: {d}"));
+                            }
+                        }
+                    }
+                    let bytes = m.as_ref().map(|x| x.1.len()).unwrap_or(0);
+                    if s.frames.len() > bytes + 2 {
+                        fail("too-many-frames", format!("stack {i}: {} frames for {} bytes of stack memory", s.frames.len(), bytes));
+                    }
+                }
+            }
+        }
+        // 7. unloaded modules with per-frame offsets, for every frame
+        for (j, f) in s.frames.iter().enumerate() {
             let a = f.instruction;
-            let valid = |m: &Mod| m.size != 0 && (m.size as u64) <= u64::MAX - m.base;
             let in_loaded = f.module.is_some();
-            let ums: &[Mod] = if c.um.iter().all(valid) { &c.um } else { &[] };
-            let mut want: BTreeMap<String, std::collections::BTreeSet<u64>> = BTreeMap::new();
+            let mut want: BTreeMap<String, BTreeSet<u64>> = BTreeMap::new();
             if !in_loaded {
-                for m in ums {
-                    if m.base <= a && a - m.base < m.size as u64 {
-                        want.entry(m.name.clone()).or_default().insert(a - m.base);
+                for (b, z, n) in &want_um {
+                    if *b <= a && a - b < *z {
+                        want.entry(n.clone()).or_default().insert(a - b);
                     }
                 }
             }
             if f.unloaded_modules != want {
-                fail("unloaded-offsets", format!("stack {i} at {a}: {:?}, expected {:?}", f.unloaded_modules, want));
+                fail("unloaded-offsets", format!("stack {i} frame {j} at {a}: {:?}, expected {:?}", f.unloaded_modules, want));
             }
-            // a frame inside a (valid, non-overlapped) loaded module must be attributed to it
-            let covering: Vec<&Mod> = c.mo.iter().filter(|m| valid(m) && m.base <= a && a - m.base < m.size as u64).collect();
-            if covering.is_empty() && in_loaded {
-                fail("frame-module", format!("stack {i} at {a}: attributed to a module that does not cover it"));
+            // a frame attributed to a loaded module must be covered by one
+            let covered = want_mods.iter().any(|(b, z, _)| *b <= a && a - b < *z);
+            if !covered && in_loaded {
+                fail("frame-module", format!("stack {i} frame {j} at {a}: attributed to a module that does not cover it"));
             }
         }
     }
@@ -826,155 +1782,100 @@ fn oracle(c: &Case, seen: &Seen) -> Vec<(String, String)> {
     if secs(st.time) != Some(c.ts as u64) {
         fail("dump-time", format!("{:?}, expected {}", st.time, c.ts));
     }
-    // modules / unloaded modules mirror the streams (entries with an impossible size excepted)
-    let valid = |m: &Mod| m.size != 0 && (m.size as u64) <= u64::MAX - m.base;
-    let want_mods: Vec<(u64, u64, String)> =
-        c.mo.iter().filter(|m| valid(m)).map(|m| (m.base, m.size as u64, m.name.clone())).collect();
+    // modules / unloaded modules mirror the streams
     let got_mods: Vec<(u64, u64, String)> =
         st.modules.iter().map(|m| (m.base_address(), m.size(), m.code_file().to_string())).collect();
     if got_mods != want_mods {
         fail("modules-mirror", format!("{got_mods:?}, expected {want_mods:?}"));
     }
-    let want_um: Vec<(u64, u64, String)> = if c.um.iter().all(valid) {
-        c.um.iter().map(|m| (m.base, m.size as u64, m.name.clone())).collect()
-    } else {
-        vec![]
-    };
     let got_um: Vec<(u64, u64, String)> =
         st.unloaded_modules.iter().map(|m| (m.base_address(), m.size(), m.code_file().to_string())).collect();
     if got_um != want_um {
         fail("unloaded-modules-mirror", format!("{got_um:?}, expected {want_um:?}"));
     }
+    // 8. the fields copied from one stream (documentation of ProcessState / SystemInfo)
+    let dflt = Sys { level: 6, revision: 0, ncpu: 1, major: 0, minor: 0, build: 0, csd: None, d: [0; 3] };
+    let si = c.si.as_ref().unwrap_or(&dflt);
+    if st.system_info.cpu_count != si.ncpu as usize {
+        fail("cpu-count", format!("{} for number_of_processors {}", st.system_info.cpu_count, si.ncpu));
+    }
+    if st.system_info.os != os || st.system_info.cpu != cpu {
+        fail("system-info-os-cpu", format!("{:?}/{:?}", st.system_info.os, st.system_info.cpu));
+    }
+    let plain = format!("{}.{}.{}", si.major, si.minor, si.build);
+    let linux_uname = c.os == LINUX && plain == "0.0.0";
+    if !linux_uname {
+        let csd = si.csd.as_ref().and_then(|n| n.decoded()).map(|s| s.trim().to_string()).filter(|s| !s.is_empty());
+        if st.system_info.os_version.as_deref() != Some(plain.as_str()) {
+            fail("os-version", format!("{:?}, expected {plain}", st.system_info.os_version));
+        }
+        if st.system_info.os_build != csd {
+            fail("os-build", format!("{:?}, expected {:?}", st.system_info.os_build, csd));
+        }
+    } else if st.system_info.os_version.is_none() {
+        fail("os-version", "os_version is None".into());
+    }
+    match cpu {
+        Cpu::X86_64 => {
+            let want = format!("family {} model {} stepping {}", si.level, (si.revision >> 8) & 0xff, si.revision & 0xff);
+            if st.system_info.cpu_info.as_deref() != Some(want.as_str()) {
+                fail("cpu-info", format!("{:?}, expected {want}", st.system_info.cpu_info));
+            }
+        }
+        Cpu::X86 | Cpu::Arm => {
+            if st.system_info.cpu_info.is_none() {
+                fail("cpu-info", "missing".into());
+            }
+        }
+        _ => {
+            if st.system_info.cpu_info.is_some() {
+                fail("cpu-info", format!("{:?} on {cpu:?}", st.system_info.cpu_info));
+            }
+        }
+    }
+    match (&c.lsb, &st.linux_standard_base) {
+        (None, None) => {}
+        (Some(kv), Some(l)) => {
+            let want = (
+                last_of(kv, &["DISTRIB_ID", "ID"]),
+                last_of(kv, &["DISTRIB_RELEASE", "VERSION_ID"]),
+                last_of(kv, &["DISTRIB_CODENAME", "VERSION_CODENAME"]),
+                last_of(kv, &["DISTRIB_DESCRIPTION", "PRETTY_NAME"]),
+            );
+            if (l.id.as_str(), l.release.as_str(), l.codename.as_str(), l.description.as_str()) != want {
+                fail("lsb", format!("{l:?}, expected {want:?}"));
+            }
+        }
+        (a, b) => fail("lsb-presence", format!("stream {:?}, state {:?}", a.is_some(), b.is_some())),
+    }
+    match (&c.mac, &st.mac_crash_info) {
+        (None, None) => {}
+        (Some(rs), got) => {
+            let agree = rs.iter().all(|r| r.version == rs[0].version);
+            let want_n = if agree { Some(rs.iter().filter(|r| r.version >= 1).count()) } else { None };
+            if got.as_ref().map(|g| g.len()) != want_n {
+                fail("mac-crash-info", format!("{:?} records, expected {want_n:?}", got.as_ref().map(|g| g.len())));
+            }
+        }
+        (None, Some(_)) => fail("mac-crash-info", "records without a stream".into()),
+    }
+    match (&c.ba, &st.mac_boot_args) {
+        (None, None) => {}
+        (Some(n), Some(b)) => {
+            if b.bootargs != n.decoded() {
+                fail("mac-boot-args", format!("{:?}, expected {:?}", b.bootargs, n.decoded()));
+            }
+        }
+        (a, b) => fail("mac-boot-args", format!("stream {:?}, state {:?}", a.is_some(), b.is_some())),
+    }
+    if st.handles.as_ref().map(|h| h.iter().count()) != c.hd.map(|n| n as usize) {
+        fail("handles", format!("{:?} handles, expected {:?}", st.handles.as_ref().map(|h| h.iter().count()), c.hd));
+    }
+    if !st.cert_info.is_empty() {
+        fail("cert-info", format!("{:?} without an evil json file", st.cert_info));
+    }
     bad
 }
-
-// ------------------------------------------------------------------- stack-memory selection
-// Oracle-only cases `index stackmem cpu=<0|9> esp=<addr|u> ra=<A|B>:<slot>` (processor.rs:1150-1167):
-// thread 1 (the exception thread) has stack memory A = [0x10000, +0x200) and its own context with
-// sp = A+0x10; the memory list also holds B = [0x20000, +0x200); a module covers [0x400000, +0x1000).
-// One return address into the module is stored at word `slot` of region A or B, everything else is 0.
-// The exception context (readable unless esp=u) has sp = esp. The walk must use the memory region that
-// contains the start context's stack pointer, so the scan finds the return address exactly when it
-// lies in that region at or above the stack pointer, within the scan window.
-
-const A_BASE: u64 = 0x10000;
-const B_BASE: u64 = 0x20000;
-const REG_SIZE: u64 = 0x200;
-const RA: u64 = 0x400310;
-
-fn exec_stackmem(case: &str) -> ImplResult {
-    let f: Vec<&str> = case.split(' ').filter(|s| !s.is_empty()).collect();
-    let bad = || ImplResult { out: "bad-op".into(), oracle: vec![("bad-case".into(), "unparsable stackmem case".into())], ..Default::default() };
-    if f.len() != 5 {
-        return bad();
-    }
-    let (Some(cpu), Some(esp), Some(ra)) = (kv(f[2], "cpu"), kv(f[3], "esp"), kv(f[4], "ra")) else {
-        return bad();
-    };
-    let Ok(cpu) = cpu.parse::<u16>() else { return bad() };
-    if cpu != 0 && cpu != 9 {
-        return bad();
-    }
-    let esp: Option<u64> = if esp == "u" { None } else { match esp.parse() { Ok(v) => Some(v), Err(_) => return bad() } };
-    let Some((reg, slot)) = ra.split_once(':') else { return bad() };
-    let Ok(slot) = slot.parse::<u64>() else { return bad() };
-    let w: u64 = if cpu == 0 { 4 } else { 8 };
-    if (reg != "A" && reg != "B") || (slot + 1) * w > REG_SIZE {
-        return bad();
-    }
-    let region = |with_ra: bool| -> Section {
-        let mut s = Section::with_endian(LE);
-        for i in 0..(REG_SIZE / w) {
-            let v = if with_ra && i == slot { RA } else { 0 };
-            s = if w == 4 { s.D32(v as u32) } else { s.D64(v) };
-        }
-        s
-    };
-    let mem_a = synth::Memory::with_section(region(reg == "A"), A_BASE);
-    let mem_b = synth::Memory::with_section(region(reg == "B"), B_BASE);
-    let tsp = A_BASE + 0x10;
-    let ctx = |ip: u64, sp: u64| -> Section {
-        if cpu == 0 { synth::x86_context(LE, ip as u32, sp as u32) } else { synth::amd64_context(LE, ip, sp) }
-    };
-    let tctx = ctx(0x400100, tsp);
-    let thread = synth::Thread::new(LE, 1, &mem_a, &tctx);
-    let name = synth::DumpString::new("mod", LE);
-    let mut dump = synth::SynthMinidump::with_endian(LE)
-        .add_system_info(synth::SystemInfo::new(LE).set_processor_architecture(cpu).set_platform_id(LINUX))
-        .add_module(synth::Module::new(LE, 0x400000, 0x1000, &name, 0, 0, None))
-        .add(name)
-        .add_thread(thread)
-        .add(tctx)
-        .add_memory(mem_a)
-        .add_memory(mem_b);
-    let mut exc = Section::with_endian(LE).D32(1).D32(0).D32(11).D32(1).D64(0).D64(0x1234).D32(0).D32(0);
-    for _ in 0..15 {
-        exc = exc.D64(0);
-    }
-    match esp {
-        Some(sp) => {
-            let ectx = ctx(0x400200, sp);
-            exc = exc.cite_location(&ectx);
-            dump = dump.add(ectx);
-        }
-        None => exc = exc.D32(0).D32(0),
-    }
-    dump = dump.add_stream(synth::SimpleStream { stream_type: md::MINIDUMP_STREAM_TYPE::ExceptionStream as u32, section: exc });
-    let bytes = dump.finish().expect("synth dump");
-    let md_dump = Minidump::read(bytes).expect("readable dump");
-    let provider = minidump_unwind::Symbolizer::new(minidump_unwind::string_symbol_supplier(Default::default()));
-    let rt = tokio::runtime::Builder::new_current_thread().build().expect("tokio runtime");
-    let state = match rt.block_on(minidump_processor::process_minidump(&md_dump, &provider)) {
-        Ok(s) => s,
-        Err(e) => return ImplResult { out: format!("err:{}", e.name()), oracle: vec![("processable-dump-rejected".into(), e.name().into())], ..Default::default() },
-    };
-    let t = &state.threads[0];
-    let frames: Vec<String> = t.frames.iter().map(|f| format!("{}@{}", f.instruction, f.context.get_stack_pointer())).collect();
-    let out = format!("req:{} frames:{}", opt(state.requesting_thread), frames.join(","));
-    // the documented rule
-    let start_sp = esp.unwrap_or(tsp);
-    let in_reg = |base: u64, a: u64| a >= base && a < base + REG_SIZE;
-    let selected: Option<u64> = if in_reg(A_BASE, start_sp) {
-        Some(A_BASE)
-    } else if in_reg(B_BASE, start_sp) {
-        Some(B_BASE)
-    } else {
-        Some(A_BASE) // fallback: the thread's own stack memory (the walk then stops at once)
-    };
-    let ra_addr = (if reg == "A" { A_BASE } else { B_BASE }) + slot * w;
-    let found = match selected {
-        Some(base) => {
-            in_reg(base, start_sp)
-                && in_reg(base, ra_addr)
-                && ra_addr >= start_sp
-                && (ra_addr - start_sp) % w == 0
-                && (ra_addr - start_sp) / w < 160
-        }
-        None => false,
-    };
-    let mut oracle = vec![];
-    let first_ip = if esp.is_some() { 0x400200 } else { 0x400100 };
-    if t.frames.first().map(|f| (f.instruction, f.context.get_stack_pointer())) != Some((first_ip, start_sp)) {
-        oracle.push(("context-preference".to_string(), format!("first frame {:?}, expected ip {first_ip} sp {start_sp}", frames.first())));
-    }
-    let has_caller = t.frames.len() >= 2;
-    if has_caller != found {
-        oracle.push((
-            "stack-memory-selection".to_string(),
-            format!("{} frames; the return address at {ra_addr:#x} {} reachable from sp {start_sp:#x} in the region containing sp", t.frames.len(), if found { "is" } else { "is not" }),
-        ));
-    }
-    if found && has_caller && (t.frames[1].instruction != RA - 1 || t.frames[1].context.get_stack_pointer() != ra_addr + w) {
-        oracle.push(("stack-memory-selection".to_string(), format!("caller frame {}, expected {}@{}", frames[1], RA - 1, ra_addr + w)));
-    }
-    ImplResult {
-        out,
-        oracle,
-        nontrivial: true,
-        tags: vec![format!("stackmem:{}", if found { "caller-found" } else { "context-only" })],
-    }
-}
-
 // --------------------------------------------------------------------------------- generator
 
 /// (value, variant name) literals of the enums in the repository's error tables, read loosely at
@@ -1161,22 +2062,6 @@ const WIN: u32 = 3;
 const MAC: u32 = 0x8101;
 const LINUX: u32 = 0x8201;
 
-fn minimal(os: u32, cpu: u16, e: Exc) -> Case {
-    Case {
-        ts: 1,
-        os,
-        cpu,
-        th: Some(vec![(e.tid, Ctx::R(4096))]),
-        nm: None,
-        bp: None,
-        ex: ExcSpec::Some(e),
-        mi: MiscSpec::None,
-        st: None,
-        mo: vec![],
-        um: vec![],
-    }
-}
-
 fn pick_u64(rng: &mut Rng) -> u64 {
     match rng.below(8) {
         0 => 0,
@@ -1187,152 +2072,6 @@ fn pick_u64(rng: &mut Rng) -> u64 {
         5 => 0xffff_ffff + rng.below(3),
         _ => rng.next(),
     }
-}
-
-fn gen_random(rng: &mut Rng, codes: &BTreeMap<String, Vec<u64>>, big: bool) -> Case {
-    let os = if rng.chance(3, 4) { *rng.pick(&[1, 2, 3, MAC, 0x8102, LINUX, 0x8203]) } else { *rng.pick(PLATFORMS) };
-    let cpu = if rng.chance(3, 4) { *rng.pick(&[0, 9, 5, 12, 3, 1, 0x8001, 0x8002, 0x8003, 10]) } else { *rng.pick(ARCHS) };
-    let is32ctx = matches!(cpu, 0 | 10 | 3 | 5);
-    let n = if big {
-        rng.range(7, 32)
-    } else {
-        *rng.pick(&[0, 1, 1, 2, 2, 3, 3, 4, 5, 6])
-    } as usize;
-    let pool: Vec<u32> = match rng.below(4) {
-        0 => vec![1, 2, 3],
-        1 => vec![0, 1, 2, 3, 4, 5, 6, 7],
-        2 => vec![7, 0xffff_ffff, 0x8000_0000, 100],
-        _ => (1..=(n as u32 + 2)).collect(),
-    };
-    let gen_ctx = |rng: &mut Rng, salt: u64| -> Ctx {
-        if rng.chance(1, 4) {
-            Ctx::U(rng.below(5) as u8)
-        } else {
-            let ip = 0x1000 * (1 + salt) + rng.below(0x40) * 0x10;
-            Ctx::R(if is32ctx { ip & 0xffff_ffff } else if rng.chance(1, 8) { ip | 0x7fff_0000_0000 } else { ip })
-        }
-    };
-    let mut th: Vec<(u32, Ctx)> = vec![];
-    for i in 0..n {
-        let id = if rng.chance(1, 12) { rng.next() as u32 } else { *rng.pick(&pool) };
-        th.push((id, gen_ctx(rng, i as u64)));
-    }
-    let th = if rng.chance(1, 40) { None } else { Some(th) };
-    let ids: Vec<u32> = th.iter().flatten().map(|t| t.0).collect();
-    let some_id = |rng: &mut Rng| -> u32 {
-        if !ids.is_empty() && rng.chance(4, 5) {
-            *rng.pick(&ids)
-        } else {
-            *rng.pick(&pool) ^ (rng.below(2) as u32 * 0x40)
-        }
-    };
-    let nm = match rng.below(4) {
-        0 => None,
-        _ => {
-            let k = rng.below(n as u64 + 3) as usize;
-            let mut v = vec![];
-            for j in 0..k {
-                let id = some_id(rng);
-                let name = if rng.chance(1, 5) { None } else { Some(format!("t{}_{}", id % 1000, j)) };
-                v.push((id, name));
-            }
-            Some(v)
-        }
-    };
-    let bp = if rng.chance(2, 5) {
-        None
-    } else {
-        let v = *rng.pick(&[0u32, 1, 2, 3, 3, 3, 7, 0xffff_fffd, 0xffff_fffe, 4]);
-        Some((v, some_id(rng), some_id(rng)))
-    };
-    let dump_id = bp.map(|b| b.1);
-    let ex = match rng.below(20) {
-        0..=4 => ExcSpec::None,
-        5 => ExcSpec::Short,
-        _ => {
-            let tid = match rng.below(6) {
-                0 => dump_id.unwrap_or(99),
-                1 => 0xdead_beef,
-                _ => some_id(rng),
-            };
-            let (code, flags) = gen_code_flags(rng, os, codes);
-            let np = *rng.pick(&[0u32, 1, 2, 2, 3, 3, 4, 15, 16, 0xffff_ffff]);
-            let p0 = *rng.pick(&[0u64, 1, 8, 2, 0x1_0000_0000, 0x1_0000_0001, u64::MAX]);
-            ExcSpec::Some(Exc {
-                tid,
-                code,
-                flags,
-                addr: pick_u64(rng),
-                np,
-                p0: if rng.chance(1, 6) { rng.next() } else { p0 },
-                p1: pick_u64(rng),
-                p2: if rng.chance(1, 2) { *rng.pick(codes.get("NtStatusWindows").map(|v| v.as_slice()).unwrap_or(&[0xc000_000e])) | (rng.below(2) << 32) } else { pick_u64(rng) },
-                ctx: gen_ctx(rng, 200),
-            })
-        }
-    };
-    let mi = match rng.below(8) {
-        0..=2 => MiscSpec::None,
-        3 => MiscSpec::Short,
-        _ => MiscSpec::Some {
-            flags: if rng.chance(3, 4) { rng.below(4) as u32 } else { rng.next() as u32 },
-            pid: if rng.chance(1, 4) { 0 } else { rng.next() as u32 },
-            ctime: if rng.chance(1, 4) { 0 } else { rng.next() as u32 },
-            ver: rng.range(1, 5) as u8,
-        },
-    };
-    let st = match rng.below(6) {
-        0..=2 => None,
-        3 => Some(vec![]),
-        _ => {
-            let mut v = vec![("Name".to_string(), "crasher".to_string())];
-            let k = rng.below(3);
-            for _ in 0..k {
-                let val = match rng.below(7) {
-                    0 => "abc".to_string(),
-                    1 => "4294967296".to_string(),
-                    2 => "4294967295".to_string(),
-                    3 => format!("+{}", rng.below(1000)),
-                    4 => "-5".to_string(),
-                    _ => rng.below(100_000).to_string(),
-                };
-                v.push((rng.pick(&["Pid", "Pid", "Tgid", "PPid", "pid"]).to_string(), val));
-            }
-            Some(v)
-        }
-    };
-    // modules placed around the instruction pointers in use
-    let ips: Vec<u64> = th
-        .iter()
-        .flatten()
-        .filter_map(|t| if let Ctx::R(ip) = t.1 { Some(ip) } else { None })
-        .chain(match &ex {
-            ExcSpec::Some(Exc { ctx: Ctx::R(ip), .. }) => Some(*ip),
-            _ => None,
-        })
-        .collect();
-    let gen_mods = |rng: &mut Rng, prefix: &str, max: u64| -> Vec<Mod> {
-        let k = rng.below(max + 1);
-        let mut v = vec![];
-        for j in 0..k {
-            let anchor = if !ips.is_empty() && rng.chance(4, 5) { *rng.pick(&ips) } else { rng.below(0x10000) };
-            let back = rng.below(0x300);
-            let base = anchor.saturating_sub(back);
-            let size = match rng.below(10) {
-                0 => 0,
-                1 => back as u32, // ends just below the anchor
-                2 => back as u32 + 1,
-                _ => (back + rng.below(0x400)) as u32,
-            };
-            let (base, size) = if rng.chance(1, 25) { (u64::MAX - rng.below(16), rng.below(32) as u32) } else { (base, size) };
-            let name = if rng.chance(1, 4) { format!("{prefix}same") } else { format!("{prefix}{j}") };
-            v.push(Mod { base, size, name });
-        }
-        v
-    };
-    let mo = gen_mods(rng, "m", 2);
-    let um = gen_mods(rng, "u", 4);
-    Case { ts: rng.next() as u32, os, cpu, th, nm, bp, ex, mi, st, mo, um }
 }
 
 fn gen_code_flags(rng: &mut Rng, os: u32, codes: &BTreeMap<String, Vec<u64>>) -> (u32, u32) {
@@ -1408,25 +2147,658 @@ fn exc0(code: u32, flags: u32) -> Exc {
     Exc { tid: 1, code, flags, addr: 0x1234, np: 3, p0: 1, p1: 0xffff_ffff_8000_0010, p2: 0x1_c000_000e, ctx: Ctx::U(0) }
 }
 
+
+fn empty_case(os: u32, cpu: u16) -> Case {
+    Case {
+        ts: 1,
+        os,
+        cpu,
+        th: Some(vec![]),
+        nm: None,
+        bp: None,
+        ex: ExcSpec::None,
+        mi: MiscSpec::None,
+        st: None,
+        mo: vec![],
+        um: vec![],
+        rg: vec![],
+        be: false,
+        ml: vec![],
+        si: None,
+        lsb: None,
+        mac: None,
+        ba: None,
+        hd: None,
+        ps: 0,
+    }
+}
+
+fn thread(id: u32, ctx: Ctx) -> Thread {
+    Thread { id, ctx, stack: None }
+}
+
+fn minimal(os: u32, cpu: u16, e: Exc) -> Case {
+    let mut c = empty_case(os, cpu);
+    c.th = Some(vec![thread(e.tid, rctx(4096))]);
+    c.ex = ExcSpec::Some(e);
+    c
+}
+
+/// names outside the ASCII-token alphabet: Latin-1, CJK, a surrogate pair, unpaired surrogates
+/// (not well-formed UTF-16: unreadable), separators of the case/answer syntax, the empty string
+fn odd_name(rng: &mut Rng) -> Name {
+    let picks: &[&[u16]] = &[
+        &[0x00e9, 0x0074, 0x00e9],
+        &[0x65e5, 0x672c, 0x8a9e],
+        &[0x0041, 0xd83d, 0xde00, 0x0042],
+        &[0xd83d],
+        &[0xde00, 0xd83d],
+        &[0x0041, 0xdc00],
+        &[0xd800, 0x0041],
+        &[0x002f, 0x003b, 0x0020, 0x005e, 0x007c, 0x003d, 0x0026, 0x002b],
+        &[],
+        &[0x0078, 0x0031],
+        &[0x0021],
+        &[0x002d],
+        &[0xfeff, 0x0061],
+        &[0x0000, 0x0061],
+        &[0xffff],
+        &[0x0061, 0x000a, 0x0062],
+    ];
+    if rng.chance(1, 12) {
+        Name::Bad
+    } else {
+        Name::Units(rng.pick(picks).to_vec())
+    }
+}
+
+fn gen_sys(rng: &mut Rng, os: u32) -> Sys {
+    let uname: &[&str] = &[
+        "Linux 5.4.0-42-generic #46-Ubuntu SMP Fri Jul 10 00:24:02 UTC 2020 x86_64 Linux/GNU",
+        "Linux 4.9.1 #1 SMP armv7l",
+        "Linux 0.0.0 #1 x86_64",
+        "Linux",
+        "Linux 6.1.0",
+        "Linux 6.1.0 x86_64",
+        "Linux 6.1.0 Linux/GNU",
+        "Linux  5.0  a  Linux/GNU",
+        "",
+        " Service Pack 1 ",
+        "\u{3000}19H1234\u{a0}",
+        "   ",
+    ];
+    let zero_ver = os == LINUX && rng.chance(2, 3);
+    let csd = match rng.below(6) {
+        0 => None,
+        1 => Some(odd_name(rng)),
+        _ => Some(Name::Units(rng.pick(uname).encode_utf16().collect())),
+    };
+    Sys {
+        level: *rng.pick(&[6u16, 0, 15, 7, 8, 0xffff]),
+        revision: if rng.chance(1, 2) { rng.next() as u16 } else { *rng.pick(&[0u16, 0x0a03, 0xff00, 0x00ff]) },
+        ncpu: *rng.pick(&[1u8, 0, 2, 8, 64, 255]),
+        major: if zero_ver { 0 } else { *rng.pick(&[0u32, 10, 6, 0xffff_ffff]) },
+        minor: if zero_ver { 0 } else { rng.below(4) as u32 },
+        build: if zero_ver { 0 } else { *rng.pick(&[0u32, 19041, 7601, 0xffff_ffff]) },
+        csd,
+        d: match rng.below(4) {
+            0 => [0x756e_6547, 0x4965_6e69, 0x6c65_746e], // GenuineIntel
+            1 => [*rng.pick(&[0x410f_c090u32, 0x510f_06f0, 0x4100_c050, 0x6900_0000, 0x12ab_c0de, 0]), rng.next() as u32 & *rng.pick(&[0x7_ffffu32, 0xffff_ffff, 0x38_0000, 0]), 0],
+            2 => [rng.next() as u32, rng.next() as u32, rng.next() as u32],
+            _ => [0, 0, 0],
+        },
+    }
+}
+
+fn gen_text(rng: &mut Rng) -> String {
+    let picks = ["Ubuntu", "20.04", "focal", "Ubuntu 20.04.1 LTS", "d\u{e9}j\u{e0} vu", "a=b", "x", "\u{1f600}", "it's", "a\"b", "1.0 (beta)"];
+    rng.pick(&picks).to_string()
+}
+
+fn gen_lsb(rng: &mut Rng) -> Vec<(String, String)> {
+    let keys = ["DISTRIB_ID", "ID", "DISTRIB_RELEASE", "VERSION_ID", "DISTRIB_CODENAME", "VERSION_CODENAME", "DISTRIB_DESCRIPTION", "PRETTY_NAME", "NAME", "id", "HOME_URL"];
+    let n = rng.below(7);
+    (0..n).map(|_| (rng.pick(&keys).to_string(), gen_text(rng))).collect()
+}
+
+fn gen_mac(rng: &mut Rng) -> Vec<MacRec> {
+    let n = rng.below(4);
+    let v0 = *rng.pick(&[5u64, 4, 1, 5, 4, 0, 2, 3, 6, 255]);
+    (0..n)
+        .map(|_| MacRec {
+            version: if rng.chance(1, 8) { *rng.pick(&[5u64, 4, 1, 0]) } else { v0 },
+            thread: pick_u64(rng),
+            dialog: rng.below(3),
+            abort: pick_u64(rng),
+            strs: [gen_text(rng), gen_text(rng), String::new(), gen_text(rng), gen_text(rng)],
+        })
+        .collect()
+}
+
+/// decorate a case with the streams whose contents are copied into the state
+fn add_extras(rng: &mut Rng, c: &mut Case) {
+    if rng.chance(1, 2) {
+        c.si = Some(gen_sys(rng, c.os));
+    }
+    if rng.chance(1, 4) {
+        c.lsb = Some(gen_lsb(rng));
+    }
+    if rng.chance(1, 5) {
+        c.mac = Some(gen_mac(rng));
+    }
+    if rng.chance(1, 6) {
+        c.ba = Some(if rng.chance(1, 3) { odd_name(rng) } else { Name::ascii("debug.1") });
+    }
+    if rng.chance(1, 6) {
+        c.hd = Some(rng.range(1, 4) as u32);
+    }
+    if rng.chance(1, 4) {
+        c.ps = rng.below(16) as u32;
+    }
+}
+
+fn gen_random(rng: &mut Rng, codes: &BTreeMap<String, Vec<u64>>, big: bool) -> Case {
+    let os = if rng.chance(3, 4) { *rng.pick(&[1, 2, 3, MAC, 0x8102, LINUX, 0x8203]) } else { *rng.pick(PLATFORMS) };
+    let cpu = if rng.chance(3, 4) { *rng.pick(&[0, 9, 5, 12, 3, 1, 0x8001, 0x8002, 0x8003, 10]) } else { *rng.pick(ARCHS) };
+    let is32ctx = ctx32(cpu);
+    let n = if big {
+        rng.range(7, 32)
+    } else {
+        *rng.pick(&[0, 1, 1, 2, 2, 3, 3, 4, 5, 6])
+    } as usize;
+    let pool: Vec<u32> = match rng.below(4) {
+        0 => vec![1, 2, 3],
+        1 => vec![0, 1, 2, 3, 4, 5, 6, 7],
+        2 => vec![7, 0xffff_ffff, 0x8000_0000, 100],
+        _ => (1..=(n as u32 + 2)).collect(),
+    };
+    let odd = rng.chance(1, 6);
+    let gen_ctx = |rng: &mut Rng, salt: u64| -> Ctx {
+        if rng.chance(1, 4) {
+            Ctx::U(rng.below(5) as u8)
+        } else {
+            let ip = 0x1000 * (1 + salt) + rng.below(0x40) * 0x10;
+            let ip = if is32ctx { ip & 0xffff_ffff } else if rng.chance(1, 8) { ip | 0x7fff_0000_0000 } else { ip };
+            if rng.chance(1, 5) {
+                // registers without any memory to look at
+                let m = if is32ctx { 0xffff_ffffu64 } else { u64::MAX };
+                Ctx::R { ip, sp: pick_u64(rng) & m, fp: pick_u64(rng) & m }
+            } else {
+                rctx(ip)
+            }
+        }
+    };
+    let mut th: Vec<Thread> = vec![];
+    for i in 0..n {
+        let id = if rng.chance(1, 12) { rng.next() as u32 } else { *rng.pick(&pool) };
+        th.push(thread(id, gen_ctx(rng, i as u64)));
+    }
+    let th = if rng.chance(1, 40) { None } else { Some(th) };
+    let ids: Vec<u32> = th.iter().flatten().map(|t| t.id).collect();
+    let some_id = |rng: &mut Rng| -> u32 {
+        if !ids.is_empty() && rng.chance(4, 5) {
+            *rng.pick(&ids)
+        } else {
+            *rng.pick(&pool) ^ (rng.below(2) as u32 * 0x40)
+        }
+    };
+    let nm = match rng.below(4) {
+        0 => None,
+        _ => {
+            let k = rng.below(n as u64 + 3) as usize;
+            let mut v = vec![];
+            for j in 0..k {
+                let id = some_id(rng);
+                let name = if rng.chance(1, 5) {
+                    Name::Bad
+                } else if odd && rng.chance(1, 2) {
+                    odd_name(rng)
+                } else {
+                    Name::ascii(&format!("t{}_{}", id % 1000, j))
+                };
+                v.push((id, name));
+            }
+            Some(v)
+        }
+    };
+    let bp = if rng.chance(2, 5) {
+        None
+    } else {
+        let v = *rng.pick(&[0u32, 1, 2, 3, 3, 3, 7, 0xffff_fffd, 0xffff_fffe, 4]);
+        Some((v, some_id(rng), some_id(rng)))
+    };
+    let dump_id = bp.map(|b| b.1);
+    let ex = match rng.below(20) {
+        0..=4 => ExcSpec::None,
+        5 => ExcSpec::Short,
+        _ => {
+            let tid = match rng.below(6) {
+                0 => dump_id.unwrap_or(99),
+                1 => 0xdead_beef,
+                _ => some_id(rng),
+            };
+            let (code, flags) = gen_code_flags(rng, os, codes);
+            let np = *rng.pick(&[0u32, 1, 2, 2, 3, 3, 4, 15, 16, 0xffff_ffff]);
+            let p0 = *rng.pick(&[0u64, 1, 8, 2, 0x1_0000_0000, 0x1_0000_0001, u64::MAX]);
+            ExcSpec::Some(Exc {
+                tid,
+                code,
+                flags,
+                addr: pick_u64(rng),
+                np,
+                p0: if rng.chance(1, 6) { rng.next() } else { p0 },
+                p1: pick_u64(rng),
+                p2: if rng.chance(1, 2) { *rng.pick(codes.get("NtStatusWindows").map(|v| v.as_slice()).unwrap_or(&[0xc000_000e])) | (rng.below(2) << 32) } else { pick_u64(rng) },
+                ctx: gen_ctx(rng, 200),
+            })
+        }
+    };
+    let mi = match rng.below(8) {
+        0..=2 => MiscSpec::None,
+        3 => MiscSpec::Short,
+        _ => MiscSpec::Some {
+            flags: if rng.chance(3, 4) { rng.below(4) as u32 } else { rng.next() as u32 },
+            pid: if rng.chance(1, 4) { 0 } else { rng.next() as u32 },
+            ctime: if rng.chance(1, 4) { 0 } else { rng.next() as u32 },
+            ver: rng.range(1, 5) as u8,
+        },
+    };
+    let st = match rng.below(6) {
+        0..=2 => None,
+        3 => Some(vec![]),
+        _ => {
+            let mut v = vec![("Name".to_string(), "crasher".to_string())];
+            let k = rng.below(3);
+            for _ in 0..k {
+                let val = match rng.below(7) {
+                    0 => "abc".to_string(),
+                    1 => "4294967296".to_string(),
+                    2 => "4294967295".to_string(),
+                    3 => format!("+{}", rng.below(1000)),
+                    4 => "-5".to_string(),
+                    _ => rng.below(100_000).to_string(),
+                };
+                v.push((rng.pick(&["Pid", "Pid", "Tgid", "PPid", "pid"]).to_string(), val));
+            }
+            Some(v)
+        }
+    };
+    // modules placed around the instruction pointers in use
+    let ips: Vec<u64> = th
+        .iter()
+        .flatten()
+        .filter_map(|t| if let Ctx::R { ip, .. } = t.ctx { Some(ip) } else { None })
+        .chain(match &ex {
+            ExcSpec::Some(Exc { ctx: Ctx::R { ip, .. }, .. }) => Some(*ip),
+            _ => None,
+        })
+        .collect();
+    let gen_mods = |rng: &mut Rng, prefix: &str, max: u64| -> Vec<Mod> {
+        let k = rng.below(max + 1);
+        let mut v = vec![];
+        for j in 0..k {
+            let anchor = if !ips.is_empty() && rng.chance(4, 5) { *rng.pick(&ips) } else { rng.below(0x10000) };
+            let back = rng.below(0x300);
+            let base = anchor.saturating_sub(back);
+            let size = match rng.below(10) {
+                0 => 0,
+                1 => back as u32, // ends just below the anchor
+                2 => back as u32 + 1,
+                _ => (back + rng.below(0x400)) as u32,
+            };
+            let (base, size) = if rng.chance(1, 25) { (u64::MAX - rng.below(16), rng.below(32) as u32) } else { (base, size) };
+            let name = if odd && rng.chance(1, 3) {
+                odd_name(rng)
+            } else if rng.chance(1, 4) {
+                Name::ascii(&format!("{prefix}same"))
+            } else {
+                Name::ascii(&format!("{prefix}{j}"))
+            };
+            v.push(Mod { base, size, name });
+        }
+        v
+    };
+    let mo = gen_mods(rng, "m", 2);
+    let um = gen_mods(rng, "u", 4);
+    let mut c = empty_case(os, cpu);
+    c.ts = rng.next() as u32;
+    c.th = th;
+    c.nm = nm;
+    c.bp = bp;
+    c.ex = ex;
+    c.mi = mi;
+    c.st = st;
+    c.mo = mo;
+    c.um = um;
+    // these threads have no stack memory and the dump has no memory list: no walk reads memory, so
+    // every CPU may come in a big-endian dump
+    c.be = rng.chance(1, 8);
+    if rng.chance(1, 3) {
+        add_extras(rng, &mut c);
+    }
+    c
+}
+
+fn word(v: u64, w: u64) -> Vec<u8> {
+    v.to_le_bytes()[..w as usize].to_vec()
+}
+
+/// Threads WITH stack memory: frame-pointer chains, planted return addresses and junk in pool
+/// regions; stack descriptors that cite them, cite nothing, or start elsewhere; memory lists of both
+/// kinds with overlapping / empty / unreadable entries; contexts whose stack pointer is inside,
+/// at the end of, or outside the regions.
+fn gen_stacks(rng: &mut Rng, cpu: u16, coherent: bool) -> Case {
+    let arch = walk_arch(cpu);
+    let w: u64 = match cpu {
+        0 | 10 | 5 | 1 | 3 => 4,
+        _ => 8,
+    };
+    let os = match cpu {
+        5 if rng.chance(2, 3) => 0x8102, // iOS: the only OS with ARM frame pointers
+        9 if rng.chance(1, 3) => WIN,
+        _ => *rng.pick(&[LINUX, LINUX, MAC, WIN, 0x8203]),
+    };
+    let mut c = empty_case(os, cpu);
+    c.ts = rng.next() as u32;
+    let lim: u64 = if ctx32(cpu) { 0xffff_ffff } else { u64::MAX };
+    // modules: one loaded (return addresses found by scanning must point into it), one unloaded
+    let mod_base: u64 = 0x40_0000;
+    if rng.chance(9, 10) {
+        c.mo.push(Mod { base: mod_base, size: 0x1000, name: Name::ascii("mod") });
+    }
+    if rng.chance(1, 3) {
+        c.mo.push(Mod { base: 0x50_0000, size: 0x800, name: Name::ascii("lib") });
+    }
+    if rng.chance(1, 2) {
+        c.um.push(Mod { base: 0x60_0000, size: 0x1000, name: Name::ascii("gone") });
+        if rng.chance(1, 3) {
+            c.um.push(Mod { base: 0x60_0800, size: 0x1000, name: Name::ascii("gone2") });
+        }
+    }
+    let ret_addr = |rng: &mut Rng| -> u64 {
+        match if coherent { 3 + rng.below(17) } else { rng.below(8) } {
+            3 | 4 | 5 => 0x60_0000 + rng.below(0x1800), // (coherent) unloaded module
+            6 | 7 => 0x50_0000 + rng.below(0x800),    // (coherent) second module
+            0 => 0x60_0000 + rng.below(0x1800),       // unloaded module
+            1 => 0x50_0000 + rng.below(0x800),        // second module
+            2 => rng.below(0x2000),                   // around the 4096 cut-off
+            3 if !coherent => (rng.next() & lim) | 0x1000, // anywhere
+            _ => mod_base + 0x10 + rng.below(0xfe0), // the loaded module
+        }
+    };
+    // regions
+    let size_a = if coherent { *rng.pick(&[0x100u64, 0x200, 0x400]) } else { *rng.pick(&[0x40u64, 0x80, 0x100, 0x200]) };
+    let base_a: u64 = match rng.below(8) {
+        0 if !ctx32(cpu) => u64::MAX - size_a,           // ends at 2^64 - 2: the last valid placement
+        1 if !ctx32(cpu) => u64::MAX - size_a + 1,       // base + size = 2^64: no memory_range()
+        2 if ctx32(cpu) => 0x1_0000_0000 - size_a,       // ends at 2^32 - 1
+        _ => 0x1_0000 + rng.below(4) * 0x1000,
+    };
+    let size_b = if coherent { *rng.pick(&[0x100u64, 0x200]) } else { *rng.pick(&[0x40u64, 0x100, 0x200]) };
+    let base_b: u64 = 0x2_0000;
+    let fill = |rng: &mut Rng, base: u64, size: u64, chain: bool| -> (Region, u64) {
+        let mut patches: Vec<(u64, Vec<u8>)> = vec![];
+        let slots = size / w;
+        // junk
+        if rng.chance(1, if coherent { 6 } else { 3 }) {
+            let mut junk = vec![];
+            for _ in 0..size {
+                junk.push(rng.next() as u8);
+            }
+            patches.push((0, junk));
+        }
+        // planted return addresses (found by scanning)
+        for _ in 0..rng.below(4) {
+            let s = rng.below(slots.max(1));
+            if (s + 1) * w <= size {
+                patches.push((s * w, word(ret_addr(rng), w)));
+            }
+        }
+        // a frame-pointer chain: [bp] = caller's bp, [bp + w] = return address
+        let mut first_bp = 0u64;
+        if chain && slots >= 4 {
+            let mut slot = rng.below(3) + if coherent { 2 } else { 0 };
+            let mut prev: Option<u64> = None;
+            let depth = if coherent { rng.range(2, 9) } else { rng.range(1, 5) };
+            for _ in 0..depth {
+                if (slot + 2) * w > size {
+                    break;
+                }
+                let bp = base.wrapping_add(slot * w);
+                if let Some(p) = prev {
+                    patches.push((p, word(bp & lim, w)));
+                } else {
+                    first_bp = bp;
+                }
+                patches.push((slot * w + w, word(ret_addr(rng), w)));
+                prev = Some(slot * w);
+                slot += 2 + rng.below(4);
+            }
+            if let Some(p) = prev {
+                // the last saved frame pointer: 0, outside, or back into the region (no progress)
+                let last = match rng.below(4) {
+                    0 => base,
+                    1 => base.wrapping_add(size),
+                    _ => 0,
+                };
+                patches.push((p, word(last & lim, w)));
+            }
+        }
+        (Region { base, size, patches }, first_bp)
+    };
+    let (ra, bp_a) = fill(rng, base_a, size_a, true);
+    let chain_b = coherent || rng.chance(1, 2);
+    let (rb, bp_b) = fill(rng, base_b, size_b, chain_b);
+    c.rg.push(ra); // 0 = A
+    c.rg.push(rb); // 1 = B
+    // 2 = C overlaps A (starts inside it, or is A's range with other bytes)
+    let c_off = *rng.pick(&[0u64, w, size_a / 2, size_a - w]);
+    let (rc, _) = fill(rng, base_a.wrapping_add(c_off) & lim, size_a, false);
+    c.rg.push(rc);
+    // 3 = an empty region at B's address; 4 = a region whose end does not fit the address space
+    c.rg.push(Region { base: base_b, size: 0, patches: vec![] });
+    c.rg.push(Region { base: u64::MAX - 7, size: 0x20, patches: vec![] });
+    // memory lists
+    let perm = |rng: &mut Rng| -> Vec<usize> {
+        let mut v: Vec<usize> = match rng.below(10) {
+            0 => vec![0, 1],
+            1 => vec![1, 0],
+            2 => vec![0, 2, 1],
+            3 => vec![2, 0, 1],
+            4 => vec![1, 3, 0, 4],
+            5 => vec![0],
+            6 => vec![1],
+            8 | 9 => vec![1, 3],
+            _ => vec![3, 4, 1, 2],
+        };
+        if rng.chance(1, 10) {
+            v.push(*rng.pick(&[0usize, 1, 2]));
+        }
+        v
+    };
+    let l_items = |rng: &mut Rng| -> Vec<LItem> {
+        let mut v: Vec<LItem> = perm(rng).into_iter().map(LItem::Pool).collect();
+        if rng.chance(1, 5) {
+            let at = rng.below(v.len() as u64 + 1) as usize;
+            v.insert(at, LItem::Null(*rng.pick(&[base_a, base_b, 0])));
+        }
+        v
+    };
+    c.ml = match rng.below(if coherent { 16 } else { 10 }) {
+        0 => vec![],
+        1 | 2 => vec![MlSection::Q(perm(rng))],
+        3 => vec![MlSection::L(l_items(rng)), MlSection::Q(perm(rng))],
+        4 => vec![MlSection::X, MlSection::L(l_items(rng))],
+        5 => vec![MlSection::Q(vec![])],
+        _ => vec![MlSection::L(l_items(rng))],
+    };
+    // stack pointers of interest
+    let sp_pick = |rng: &mut Rng| -> (u64, u64) {
+        let (base, size, bp) = if rng.chance(2, 3) { (base_a, size_a, bp_a) } else { (base_b, size_b, bp_b) };
+        if coherent && bp != 0 && rng.chance(1, 8) {
+            // the last bytes of the region: no 64-bit word at sp, the chain still readable
+            let sp = base.wrapping_add(size).wrapping_sub(rng.range(1, 8));
+            return (sp & lim, bp & lim);
+        }
+        if coherent && bp != 0 && rng.chance(5, 6) {
+            // a context that belongs to the chain: sp a few words below the first frame record
+            let sp = bp.wrapping_sub(rng.below(3) * w).max(base);
+            return (sp & lim, bp & lim);
+        }
+        let sp = match rng.below(12) {
+            0 => base.wrapping_add(size).wrapping_sub(rng.below(10)), // the last bytes, the end, one past
+            1 => base.wrapping_sub(rng.range(1, 8)),
+            2 => 0,
+            3 => lim,
+            4 => base.wrapping_add(size),
+            5 if cpu == 1 => (1 << 32) | base.wrapping_add(rng.below(size / w) * w), // MIPS: garbage above bit 31
+            6 => base.wrapping_add(rng.below(size)), // unaligned
+            _ => base.wrapping_add(rng.below((size / w).max(1)) * w),
+        };
+        let fp = match rng.below(6) {
+            0 => 0,
+            1 => rng.next(),
+            2 => sp,
+            _ => bp,
+        };
+        (sp & if cpu == 1 { u64::MAX } else { lim }, fp & lim)
+    };
+    let ip = |rng: &mut Rng| -> u64 { *rng.pick(&[mod_base + 0x100, mod_base + 0x200, 0x60_0100, 0x7000, 0x50_0010]) };
+    let n = rng.range(1, 3);
+    let ids: Vec<u32> = if rng.chance(1, 3) { vec![1] } else { vec![1, 2, 3] };
+    let mut th = vec![];
+    for _ in 0..n {
+        let id = *rng.pick(&ids);
+        let ctx = if rng.chance(1, 8) {
+            Ctx::U(rng.below(5) as u8)
+        } else {
+            let (sp, fp) = sp_pick(rng);
+            Ctx::R { ip: ip(rng), sp, fp }
+        };
+        let start = match rng.below(if coherent { 24 } else { 8 }) {
+            0 => base_b,
+            1 => base_a.wrapping_add(w),
+            2 => 0,
+            _ => base_a,
+        };
+        let stack = match rng.below(if coherent { 20 } else { 10 }) {
+            0 => None,
+            1 => Some((start, Own::Null)),
+            2 => Some((start, Own::Outside)),
+            3 => Some((start, Own::Pool(1))),
+            4 => Some((start, Own::Pool(3))),
+            _ => Some((start, Own::Pool(0))),
+        };
+        th.push(Thread { id, ctx, stack });
+    }
+    c.th = Some(th);
+    if rng.chance(3, 5) {
+        let (sp, fp) = sp_pick(rng);
+        let ctx = if rng.chance(1, 6) { Ctx::U(rng.below(5) as u8) } else { Ctx::R { ip: ip(rng), sp, fp } };
+        let mut e = exc0(11, 1);
+        e.tid = if rng.chance(1, 8) { 9 } else { *rng.pick(&ids) };
+        e.ctx = ctx;
+        c.ex = ExcSpec::Some(e);
+    }
+    if rng.chance(1, 4) {
+        c.bp = Some((*rng.pick(&[1u32, 2, 3]), *rng.pick(&ids), *rng.pick(&ids)));
+    }
+    if rng.chance(1, 4) {
+        c.nm = Some(vec![(1, if rng.chance(1, 2) { odd_name(rng) } else { Name::ascii("main") }), (2, Name::ascii("worker"))]);
+    }
+    // a big-endian dump only where no walk reads memory through the (little-endian) walker model
+    c.be = arch.is_none() && rng.chance(1, 2);
+    if rng.chance(1, 6) {
+        add_extras(rng, &mut c);
+    }
+    c
+}
+
+/// the start context's stack pointer lies in the last `k` bytes of the thread's own stack memory
+/// (no 64-bit word there) and the memory list — absent, or holding region B only — does not serve
+/// that address: the thread keeps its own memory, in which the frame-pointer chain (and, on 32-bit
+/// CPUs, the last word) is still readable
+fn tail_case(cpu: u16, k: u64, with_list: bool, fp_kind: u8) -> Case {
+    let w: u64 = if matches!(cpu, 0 | 5 | 1) { 4 } else { 8 };
+    let (a, b, size) = (0x10000u64, 0x20000u64, 0x100u64);
+    let os = if cpu == 5 { 0x8102 } else { LINUX };
+    let mut c = empty_case(os, cpu);
+    c.mo.push(Mod { base: 0x40_0000, size: 0x1000, name: Name::ascii("mod") });
+    let mut patches = vec![
+        (0x20, word(a + 0x40, w)),
+        (0x20 + w, word(0x40_0310, w)),
+        (0x40, word(0, w)),
+        (0x40 + w, word(0x40_0420, w)),
+        // a frame record in the last two words (caller's frame pointer 0, return address): its caller
+        // frame has sp = end of the region, above every stack pointer inside it
+        (size - 2 * w, word(0, w)),
+        (size - w, word(0x40_0530, w)),
+    ];
+    patches.sort();
+    c.rg.push(Region { base: a, size, patches });
+    c.rg.push(Region { base: b, size, patches: vec![] });
+    if with_list {
+        c.ml = vec![MlSection::L(vec![LItem::Pool(1)])];
+    }
+    let fp = match fp_kind {
+        0 => a + 0x20,
+        1 => a + size - 2 * w,
+        _ => 0,
+    };
+    c.th = Some(vec![Thread { id: 1, ctx: Ctx::R { ip: 0x40_0100, sp: a + size - k, fp }, stack: Some((a, Own::Pool(0))) }]);
+    c
+}
+
+/// the former oracle-only `index stackmem` grid, now modelled: thread 1 owns region A and its own
+/// context points into A; the exception context (readable unless `esp` is none) has sp = esp; one
+/// return address into the module is planted in A or B at word `slot`
+fn stackmem_case(cpu: u16, esp: Option<u64>, in_a: bool, slot: u64) -> Case {
+    let w: u64 = if cpu == 0 { 4 } else { 8 };
+    let (a, b, size, ra) = (0x10000u64, 0x20000u64, 0x200u64, 0x40_0310u64);
+    let mut c = empty_case(LINUX, cpu);
+    c.mo.push(Mod { base: 0x40_0000, size: 0x1000, name: Name::ascii("mod") });
+    let plant = |on: bool| if on { vec![(slot * w, word(ra, w))] } else { vec![] };
+    c.rg.push(Region { base: a, size, patches: plant(in_a) });
+    c.rg.push(Region { base: b, size, patches: plant(!in_a) });
+    c.ml = vec![MlSection::L(vec![LItem::Pool(0), LItem::Pool(1)])];
+    c.th = Some(vec![Thread { id: 1, ctx: Ctx::R { ip: 0x40_0100, sp: a + 0x10, fp: 0 }, stack: Some((a, Own::Pool(0))) }]);
+    let mut e = exc0(11, 1);
+    e.np = 0;
+    e.ctx = match esp {
+        Some(sp) => Ctx::R { ip: 0x40_0200, sp, fp: 0 },
+        None => Ctx::U(0),
+    };
+    c.ex = ExcSpec::Some(e);
+    c
+}
+
 impl Engine for Index {
     fn name(&self) -> &'static str {
         "index"
     }
     fn rule(&self) -> String {
-        "abstract dump descriptions (0..32 threads with duplicate/missing ids, thread names with duplicates and \
-         unreadable strings, Breakpad info validity bits, exception stream absent/short/present with thread id \
-         absent/present/equal to the dump-writer thread, five kinds of unreadable context for either source, every \
-         PlatformId x ProcessorArchitecture value and unknown ones, exception codes/flags from the repository's enum \
-         tables and their neighbours and random u32, parameter counts 0..16 and 2^32-1, sign-extended addresses, \
-         misc-info flag combinations in all five struct versions, /proc/status streams, loaded/unloaded modules \
-         around the frame addresses incl. impossible sizes) are turned into dump bytes with minidump-synth + raw \
-         sections and processed by the real process_minidump; the canonical rendering of ProcessState is compared \
-         with the Lean model on the same description, and the property oracle (stack per thread in order with ids \
-         and names, requesting-thread rule, context preference, crash address incl. zero-extension, reason family \
-         per OS, pid/times, module mirrors, unloaded offsets) is evaluated on the implementation alone. Exhaustive \
-         part: every literal of the Windows/Linux/macOS exception enums as exception code (and every macOS/Linux \
-         sub-code as flags, per CPU class). non-trivial = processed dump with at least one thread and an exception \
-         stream or Breakpad info."
+        "abstract dump descriptions (0..32 threads with duplicate/missing ids, thread names with duplicates, unreadable \
+         strings, non-ASCII / non-BMP / ill-formed UTF-16; Breakpad info validity bits; exception stream absent/short/present \
+         with thread id absent/present/equal to the dump-writer thread; five kinds of unreadable context for either source; \
+         every PlatformId x ProcessorArchitecture value and unknown ones; exception codes/flags from the repository's enum \
+         tables and their neighbours and random u32; parameter counts 0..16 and 2^32-1; sign-extended addresses; misc-info \
+         flag combinations in all five struct versions; /proc/status streams; loaded/unloaded modules around the frame \
+         addresses incl. impossible sizes and unreadable names; THREADS WITH STACK MEMORY: pool regions holding \
+         frame-pointer chains, planted return addresses and junk for x86/amd64/arm/arm64/arm64-old/mips (and ppc/sparc, which \
+         have no unwinder), stack descriptors that cite a region, cite nothing (rva 0 / outside the file / size 0) or start \
+         elsewhere, memory lists and memory-64 lists (both, a broken memory-64 stream, empty, unreadable descriptors) with \
+         overlapping regions, a region ending at 2^64-2 or not fitting the address space, stack pointers inside / in the last \
+         bytes of / at the end of / outside the regions, MIPS stack pointers with garbage above bit 31; big-endian dumps; \
+         system-info / LSB / macOS crash-info / boot-args / handle streams and streams that are present without being \
+         consulted) are turned into dump bytes with minidump-synth + raw sections and processed by the real \
+         process_minidump; the canonical rendering of ProcessState (every frame of every call stack included) is compared \
+         with the Lean model on the same description, and the property oracle (stack per thread in order with ids and \
+         names, requesting-thread rule, context preference, every call stack = the real walk_stack on a memory that contains \
+         the start context's stack pointer, C05 well-formedness and the C03 bound per stack, crash address incl. \
+         zero-extension, reason family per OS, pid/times, module mirrors, unloaded offsets of every frame, copied fields) \
+         is evaluated on the implementation alone. Exhaustive part: every literal of the Windows/Linux/macOS exception \
+         enums as exception code (and every macOS/Linux sub-code as flags, per CPU class). non-trivial = processed dump \
+         with at least one thread and an exception stream, Breakpad info or a walked stack."
             .into()
     }
     fn exhaustive_part(&self) -> Option<String> {
@@ -1482,15 +2854,16 @@ impl Engine for Index {
                 emit(minimal(LINUX, 9, exc0(*code as u32, fl)).line());
             }
         }
-        // --- every OS x CPU with one Windows, one mac and one Linux shaped record
+        // --- every OS x CPU with one Windows, one mac and one Linux shaped record, in both byte orders
         for os in PLATFORMS {
             for cpu in ARCHS {
-                for (code, flags) in [(0xc000_0005u32, 0u32), (1, 2), (11, 1)] {
+                for (k, (code, flags)) in [(0xc000_0005u32, 0u32), (1, 2), (11, 1)].into_iter().enumerate() {
                     let mut e = exc0(code, flags);
-                    e.ctx = Ctx::R(0x7000);
+                    e.ctx = rctx(0x7000);
                     e.np = 2;
                     let mut c = minimal(*os, *cpu, e);
-                    c.th = Some(vec![(2, Ctx::R(0x1000)), (1, Ctx::R(0x2000)), (1, Ctx::U(3))]);
+                    c.th = Some(vec![thread(2, rctx(0x1000)), thread(1, rctx(0x2000)), thread(1, Ctx::U(3))]);
+                    c.be = k == 1;
                     emit(c.line());
                 }
             }
@@ -1506,42 +2879,62 @@ impl Engine for Index {
                 }
             }
         }
-        // --- oracle-only: the stack memory is the region that contains the start context's stack pointer
+        // --- the stack memory is the region that contains the start context's stack pointer (directed grid)
         for cpu in [0u16, 9] {
-            for esp in ["u", "65568", "131072", "131104", "131576", "196608", "66040"] {
-                for reg in ["A", "B"] {
-                    for slot in [4u64, 8, 40, 62] {
-                        emit(format!("index stackmem cpu={cpu} esp={esp} ra={reg}:{slot}"));
+            for esp in [None, Some(65568u64), Some(131072), Some(131104), Some(131576), Some(196608), Some(66040), Some(66041), Some(131577), Some(131583), Some(131584)] {
+                for in_a in [true, false] {
+                    for slot in [4u64, 8, 40, 62, 63] {
+                        emit(stackmem_case(cpu, esp, in_a, slot).line());
                     }
                 }
             }
         }
+        for cpu in [0u16, 9, 12, 5, 1, 0x8003] {
+            for k in 0..=9u64 {
+                for with_list in [false, true] {
+                    for fp_kind in 0..3u8 {
+                        emit(tail_case(cpu, k, with_list, fp_kind).line());
+                        if cpu == 5 {
+                            // ARM frame pointers are followed on iOS only: the same case on Linux scans
+                            let mut c = tail_case(cpu, k, with_list, fp_kind);
+                            c.os = LINUX;
+                            emit(c.line());
+                        }
+                    }
+                }
+            }
+        }
+        // --- copied fields: every CPU class x OS class with generated system info / LSB / crash info
+        for cpu in [0u16, 9, 5, 12, 3, 1] {
+            for os in [WIN, MAC, LINUX, 0x8203, 4] {
+                for _ in 0..(if tier == Tier::Quick { 12 } else { 60 }) {
+                    let mut c = minimal(os, cpu, exc0(11, 1));
+                    c.si = Some(gen_sys(rng, os));
+                    c.lsb = if rng.chance(1, 2) { Some(gen_lsb(rng)) } else { None };
+                    c.mac = if rng.chance(1, 2) { Some(gen_mac(rng)) } else { None };
+                    add_extras(rng, &mut c);
+                    c.be = rng.chance(1, 6);
+                    emit(c.line());
+                }
+            }
+        }
+        // --- threads with stack memory
+        let n = if tier == Tier::Quick { 24000 } else { 120000 };
+        for i in 0..n {
+            let cpu = [9u16, 0, 12, 9, 0, 12, 5, 1, 0x8003, 10, 3, 0x8001, 0x8002, 9, 12, 0][i % 16];
+            emit(gen_stacks(rng, cpu, i % 3 != 0).line());
+        }
         // --- random
-        let n = if tier == Tier::Quick { 40000 } else { 80000 };
+        let n = if tier == Tier::Quick { 30000 } else { 100000 };
         for i in 0..n {
             let big = i % 10 == 0;
             emit(gen_random(rng, &codes, big).line());
         }
     }
 
-    fn model_request(&self, case: &str) -> Option<String> {
-        // `index stackmem ..` cases are oracle-only (the model does not walk stacks)
-        if case.starts_with("index stackmem ") {
-            None
-        } else {
-            Some(case.to_string())
-        }
-    }
-
     fn exec(&self, case: &str) -> ImplResult {
-        if case.starts_with("index stackmem ") {
-            return match catch(|| exec_stackmem(case)) {
-                Ok(r) => r,
-                Err(msg) => ImplResult { out: "PANIC".into(), oracle: vec![("panic".into(), msg)], nontrivial: false, tags: vec!["panic".into()] },
-            };
-        }
         let Some(c) = parse_case(case) else {
-            return ImplResult { out: "bad-op".into(), ..Default::default() };
+            return ImplResult { out: "bad-op".into(), oracle: vec![("bad-case".into(), "unparsable case line".into())], ..Default::default() };
         };
         let seen = match catch(|| run_impl(&c)) {
             Ok(s) => s,
@@ -1554,13 +2947,21 @@ impl Engine for Index {
                 }
             }
         };
-        let oracle = oracle(&c, &seen);
+        let oracle = match catch(|| oracle(&c, &seen)) {
+            Ok(o) => o,
+            Err(msg) => vec![("panic".into(), format!("while re-walking a stack: {msg}"))],
+        };
         let mut tags = vec![];
         let n = c.th.as_ref().map(|t| t.len()).unwrap_or(0);
         tags.push(format!("threads:{}", match n { 0 => "0", 1 => "1", 2..=6 => "2-6", _ => "7-32" }));
         tags.push(format!("os:{:?}", Os::from_platform_id(c.os)).split('(').next().unwrap().to_string());
         tags.push(format!("cpu:{:?}", Cpu::from_processor_architecture(c.cpu)).split('(').next().unwrap().to_string());
         tags.push(format!("exc:{}", match &c.ex { ExcSpec::None => "none", ExcSpec::Short => "short", ExcSpec::Some(_) => "some" }));
+        tags.push(format!("endian:{}", if c.be { "big" } else { "little" }));
+        for m in &c.ml {
+            tags.push(format!("memory:{}", match m { MlSection::L(_) => "list", MlSection::Q(_) => "list64", MlSection::X => "broken-list64" }));
+        }
+        let mut walked = false;
         if let Some(st) = &seen.state {
             if let Some(e) = &st.exception_info {
                 tags.push(format!("reason:{}", reason_tag(&e.reason).split('(').next().unwrap()));
@@ -1568,11 +2969,24 @@ impl Engine for Index {
             tags.push(format!("req:{}", if st.requesting_thread.is_some() { "some" } else { "none" }));
             for t in &st.threads {
                 tags.push(format!("info:{:?}", t.info));
-                if t.frames.first().is_some_and(|f| !f.unloaded_modules.is_empty()) {
+                tags.push(format!("frames:{}", match t.frames.len() { 0 => "0", 1 => "1", 2 => "2", 3..=5 => "3-5", _ => "6+" }));
+                if t.frames.len() > 1 {
+                    walked = true;
+                }
+                for f in t.frames.iter().skip(1) {
+                    tags.push(format!("trust:{}", f.trust.as_str()));
+                }
+                if t.frames.iter().any(|f| !f.unloaded_modules.is_empty()) {
                     tags.push("frame-in-unloaded".into());
+                }
+                if t.frames.iter().skip(1).any(|f| !f.unloaded_modules.is_empty()) {
+                    tags.push("caller-frame-in-unloaded".into());
                 }
                 if t.frames.first().is_some_and(|f| f.module.is_some()) {
                     tags.push("frame-in-loaded".into());
+                }
+                if t.thread_name.as_deref().is_some_and(|n| !n.is_ascii()) {
+                    tags.push("name:non-ascii".into());
                 }
             }
             if let (ExcSpec::Some(e), Some(th)) = (&c.ex, &c.th) {
@@ -1580,10 +2994,10 @@ impl Engine for Index {
                 if Some(e.tid) == dump_id {
                     tags.push("exc-thread=dump-thread".into());
                 }
-                if !th.iter().any(|t| t.0 == e.tid) {
+                if !th.iter().any(|t| t.id == e.tid) {
                     tags.push("exc-thread-absent".into());
                 }
-                if th.iter().filter(|t| t.0 == e.tid).count() > 1 {
+                if th.iter().filter(|t| t.id == e.tid).count() > 1 {
                     tags.push("exc-thread-duplicated".into());
                 }
                 if matches!(e.ctx, Ctx::U(_)) {
@@ -1591,10 +3005,16 @@ impl Engine for Index {
                 }
             }
             tags.push(format!("pid:{}", if st.process_id.is_some() { "some" } else { "none" }));
+            if st.linux_standard_base.is_some() {
+                tags.push("lsb".into());
+            }
+            if st.mac_crash_info.is_some() {
+                tags.push("mac-crash-info".into());
+            }
         } else {
             tags.push(format!("result:{}", seen.out));
         }
-        let nontrivial = seen.state.is_some() && n > 0 && (matches!(c.ex, ExcSpec::Some(_)) || c.bp.is_some());
+        let nontrivial = seen.state.is_some() && n > 0 && (matches!(c.ex, ExcSpec::Some(_)) || c.bp.is_some() || walked);
         ImplResult { out: seen.out, oracle, nontrivial, tags }
     }
 
@@ -1604,7 +3024,7 @@ impl Engine for Index {
         };
         let mut progress = true;
         let mut rounds = 0;
-        while progress && rounds < 50 {
+        while progress && rounds < 60 {
             progress = false;
             rounds += 1;
             let mut cands: Vec<Case> = vec![];
@@ -1613,6 +3033,20 @@ impl Engine for Index {
                     let mut c = cur.clone();
                     c.th.as_mut().unwrap().remove(i);
                     cands.push(c);
+                }
+                for i in 0..th.len() {
+                    if th[i].stack.is_some() {
+                        let mut c = cur.clone();
+                        c.th.as_mut().unwrap()[i].stack = None;
+                        cands.push(c);
+                    }
+                    if let Ctx::R { ip, sp, fp } = th[i].ctx {
+                        if fp != 0 {
+                            let mut c = cur.clone();
+                            c.th.as_mut().unwrap()[i].ctx = Ctx::R { ip, sp, fp: 0 };
+                            cands.push(c);
+                        }
+                    }
                 }
             }
             if let Some(nm) = &cur.nm {
@@ -1675,6 +3109,64 @@ impl Engine for Index {
             if cur.ts != 0 {
                 let mut c = cur.clone();
                 c.ts = 0;
+                cands.push(c);
+            }
+            macro_rules! drop_field {
+                ($f:ident, $empty:expr) => {
+                    if cur.$f != $empty {
+                        let mut c = cur.clone();
+                        c.$f = $empty;
+                        cands.push(c);
+                    }
+                };
+            }
+            drop_field!(si, None);
+            drop_field!(lsb, None);
+            drop_field!(mac, None);
+            drop_field!(ba, None);
+            drop_field!(hd, None);
+            drop_field!(ps, 0);
+            drop_field!(be, false);
+            // memory lists: drop a section, an item
+            for i in 0..cur.ml.len() {
+                let mut c = cur.clone();
+                c.ml.remove(i);
+                cands.push(c);
+                match &cur.ml[i] {
+                    MlSection::L(items) => {
+                        for j in 0..items.len() {
+                            let mut c = cur.clone();
+                            if let MlSection::L(v) = &mut c.ml[i] {
+                                v.remove(j);
+                            }
+                            cands.push(c);
+                        }
+                    }
+                    MlSection::Q(items) => {
+                        for j in 0..items.len() {
+                            let mut c = cur.clone();
+                            if let MlSection::Q(v) = &mut c.ml[i] {
+                                v.remove(j);
+                            }
+                            cands.push(c);
+                        }
+                    }
+                    MlSection::X => {}
+                }
+            }
+            // region contents: drop a patch (region indices stay valid)
+            for i in 0..cur.rg.len() {
+                for j in 0..cur.rg[i].patches.len() {
+                    let mut c = cur.clone();
+                    c.rg[i].patches.remove(j);
+                    cands.push(c);
+                }
+            }
+            // an unreferenced pool is dropped as a whole
+            let referenced = cur.th.iter().flatten().any(|t| matches!(t.stack, Some((_, Own::Pool(_))))) || !cur.ml.is_empty();
+            if !referenced && !cur.rg.is_empty() {
+                let mut c = cur.clone();
+                c.rg.clear();
                 cands.push(c);
             }
             for c in cands {
